@@ -612,7 +612,7 @@ mod kani_c06 {
     }
 
     #[cfg(feature = "proto-ipv4")]
-    fn icmpv4_rt(which: u8, check_bytes: bool) {
+    fn icmpv4_rt(which: u8, check_bytes: bool) -> bool {
         let data: [u8; ICMP4_DATA] = kani::any();
         let dl: usize = kani::any();
         kani::assume(dl <= ICMP4_DATA && (which < 2 || dl >= 8)); // tag: proviso
@@ -624,32 +624,31 @@ mod kani_c06 {
         repr.emit(&mut Icmpv4Packet::new_unchecked(&mut a[..n]), &ChecksumCapabilities::ignored());
         if check_bytes {
             repr.emit(&mut Icmpv4Packet::new_unchecked(&mut b[..n]), &ChecksumCapabilities::ignored());
-            kani::cover!(dl == ICMP4_DATA, "emission with maximal data reachable");
             same_bytes(&a[..n], &b[..n]);
-            return;
+            return dl == ICMP4_DATA;
         }
         let p = Icmpv4Packet::new_checked(&a[..n]);
         assert!(p.is_ok(), "C06.icmpv4: emitted packet passes new_checked");
         let r = Icmpv4Repr::parse(&p.unwrap(), &ChecksumCapabilities::ignored());
-        kani::cover!(r.is_ok() && dl == ICMP4_DATA, "round trip with maximal data reachable");
         assert!(r.is_ok(), "C06.icmpv4: emitted packet parses");
         icmpv4_same(&r.unwrap(), &repr);
+        dl == ICMP4_DATA
     }
 
     #[cfg(feature = "proto-ipv4")]
     #[kani::proof] #[kani::unwind(6)]
-    fn c06_icmpv4_echo_emit_parse() { icmpv4_rt(kani::any::<u8>() % 2, false); }
+    fn c06_icmpv4_echo_emit_parse() { let full = icmpv4_rt(kani::any::<u8>() % 2, false); kani::cover!(full, "run with maximal data completes"); }
     #[cfg(feature = "proto-ipv4")]
     #[kani::proof] #[kani::unwind(6)]
-    fn c06_icmpv4_echo_emit_deterministic() { icmpv4_rt(kani::any::<u8>() % 2, true); }
+    fn c06_icmpv4_echo_emit_deterministic() { let full = icmpv4_rt(kani::any::<u8>() % 2, true); kani::cover!(full, "run with maximal data completes"); }
     #[cfg(feature = "proto-ipv4")]
     #[kani::proof] #[kani::unwind(6)]
-    fn c06_icmpv4_error_emit_parse() { icmpv4_rt(2 + kani::any::<u8>() % 2, false); }
+    fn c06_icmpv4_error_emit_parse() { let full = icmpv4_rt(2 + kani::any::<u8>() % 2, false); kani::cover!(full, "run with maximal data completes"); }
     /// FAILS on smoltcp 0.13.1 (genuine defect, not listed in obligations/C06.json): emit for DstUnreachable / TimeExceeded never
     /// writes header bytes 4..8 ("unused", must be zero per RFC 792): they keep whatever the buffer held before.
     #[cfg(feature = "proto-ipv4")]
     #[kani::proof] #[kani::unwind(6)]
-    fn c06_icmpv4_error_emit_deterministic() { icmpv4_rt(2 + kani::any::<u8>() % 2, true); }
+    fn c06_icmpv4_error_emit_deterministic() { let full = icmpv4_rt(2 + kani::any::<u8>() % 2, true); kani::cover!(full, "run with maximal data completes"); }
 
     #[cfg(feature = "proto-ipv4")]
     #[kani::proof] #[kani::unwind(6)]
@@ -723,7 +722,7 @@ mod kani_c06 {
     }
 
     #[cfg(feature = "proto-ipv6")]
-    fn icmpv6_rt(which: u8, check_bytes: bool) {
+    fn icmpv6_rt(which: u8, check_bytes: bool) -> bool {
         let data: [u8; ICMP6_DATA] = kani::any();
         let dl: usize = kani::any();
         kani::assume(dl <= ICMP6_DATA); // tag: range
@@ -736,37 +735,37 @@ mod kani_c06 {
         repr.emit(&src, &dst, &mut Icmpv6Packet::new_unchecked(&mut a[..n]), &ChecksumCapabilities::ignored());
         if check_bytes {
             repr.emit(&src, &dst, &mut Icmpv6Packet::new_unchecked(&mut b[..n]), &ChecksumCapabilities::ignored());
-            kani::cover!(dl == ICMP6_DATA, "emission with maximal data reachable");
             same_bytes(&a[..n], &b[..n]);
-            return;
+            return dl == ICMP6_DATA;
         }
         let p = Icmpv6Packet::new_checked(&a[..n]);
         assert!(p.is_ok(), "C06.icmpv6: emitted packet passes new_checked");
         let r = Icmpv6Repr::parse(&src, &dst, &p.unwrap(), &ChecksumCapabilities::ignored());
-        kani::cover!(r.is_ok() && dl == ICMP6_DATA, "round trip with maximal data reachable");
         assert!(r.is_ok(), "C06.icmpv6: emitted packet parses");
         icmpv6_same(&r.unwrap(), &repr);
+        dl == ICMP6_DATA
     }
 
     #[cfg(feature = "proto-ipv6")]
     #[kani::proof] #[kani::unwind(18)]
-    fn c06_icmpv6_echo_emit_parse() { icmpv6_rt(4 + kani::any::<u8>() % 2, false); }
+    fn c06_icmpv6_echo_emit_parse() { let full = icmpv6_rt(4 + kani::any::<u8>() % 2, false); kani::cover!(full, "run with maximal data completes"); }
     #[cfg(feature = "proto-ipv6")]
     #[kani::proof] #[kani::unwind(18)]
-    fn c06_icmpv6_echo_emit_deterministic() { icmpv6_rt(4 + kani::any::<u8>() % 2, true); }
+    fn c06_icmpv6_echo_emit_deterministic() { let full = icmpv6_rt(4 + kani::any::<u8>() % 2, true); kani::cover!(full, "run with maximal data completes"); }
     #[cfg(feature = "proto-ipv6")]
     #[kani::proof] #[kani::unwind(18)]
-    fn c06_icmpv6_error_emit_parse() { icmpv6_rt(kani::any::<u8>() % 4, false); }
+    fn c06_icmpv6_error_emit_parse() { let full = icmpv6_rt(kani::any::<u8>() % 4, false); kani::cover!(full, "run with maximal data completes"); }
     /// packet too big / parameter problem: header word 4..8 is the MTU / pointer
     #[cfg(feature = "proto-ipv6")]
     #[kani::proof] #[kani::unwind(18)]
-    fn c06_icmpv6_error_emit_deterministic_mtu_ptr() { icmpv6_rt(1 + 2 * (kani::any::<u8>() % 2), true); }
+    fn c06_icmpv6_error_emit_deterministic_mtu_ptr() { let full = icmpv6_rt(1 + 2 * (kani::any::<u8>() % 2), true); kani::cover!(full, "run with maximal data completes"); }
     /// FAILS on smoltcp 0.13.1 (genuine defect, not listed in obligations/C06.json): emit for DstUnreachable / TimeExceeded never
     /// writes header bytes 4..8 ("unused", must be zero per RFC 4443): they keep whatever the buffer held before.
     #[cfg(feature = "proto-ipv6")]
     #[kani::proof] #[kani::unwind(18)]
-    fn c06_icmpv6_error_emit_deterministic_unused() { icmpv6_rt(2 * (kani::any::<u8>() % 2), true); }
+    fn c06_icmpv6_error_emit_deterministic_unused() { let full = icmpv6_rt(2 * (kani::any::<u8>() % 2), true); kani::cover!(full, "run with maximal data completes"); }
 
+    /// echo and error messages (NDISC / MLD have their own harnesses). Run without a link-layer medium feature (unit wire_f0).
     #[cfg(feature = "proto-ipv6")]
     #[kani::proof] #[kani::unwind(18)]
     fn c06_icmpv6_parse_emit_parse() {
@@ -776,7 +775,7 @@ mod kani_c06 {
         kani::assume(n <= L); // tag: range
         let (src, dst) = (ip6(), ip6());
         let t = buf[0];
-        kani::assume(t <= 4 || t == 0x80 || t == 0x81); // tag: scope (echo and error messages; NDISC / MLD have their own harnesses)
+        kani::assume(t <= 4 || t == 0x80 || t == 0x81); // tag: scope
         if let Ok(p) = Icmpv6Packet::new_checked(&buf[..n]) {
             if let Ok(r) = Icmpv6Repr::parse(&src, &dst, &p, &ChecksumCapabilities::ignored()) {
                 kani::cover!(matches!(r, Icmpv6Repr::ParamProblem { .. }) && n == L, "parameter problem with quoted data parsed");
@@ -1430,6 +1429,1626 @@ mod kani_c06 {
     #[cfg(all(feature = "proto-sixlowpan", feature = "medium-ieee802154"))]
     #[kani::proof] #[kani::unwind(18)]
     fn c06_sixlowpan_iphc_parse_emit_parse_unicast() { sixlowpan_iphc_pep(true); }
+
+    // ======================================================================== merged from sub-agent C
+    // ------------------------------------------------------------------------------------------ DHCPv4
+    // DhcpRepr proviso (what emit can write and parse can give back):
+    //   * message_type in canonical form (DhcpMessageType::from(u8); Unknown(x) is emitted with op = 0 and parsed back);
+    //   * hardware type Ethernet / hlen 6, hops 0, sname/file zero are implied (not part of the Repr);
+    //   * renew_duration and rebind_duration are None: Repr::emit and Repr::buffer_len ignore them although Repr::parse
+    //     fills them (=> c06_dhcp_emit_t1t2 fails: reported as a defect);
+    //   * parameter_request_list: at most 255 bytes; dns_servers: 0..=3 addresses (Some(empty) is representable);
+    //   * additional_options: parse never returns them (always &[]); an additional option must have a kind unknown to parse
+    //     (not PAD/END, not one of the kinds parse interprets) and <= 255 data bytes.
+    // Proof structure. Repr::emit zeroes the 74 + 128 bytes of sname / file in two loops (unwind 130), and with that bound the
+    // option loops of Repr::parse (whose exit CBMC cannot decide during unwinding on a 240+ byte array) are unrolled 130 x 130
+    // times. The round trip is therefore proven in two halves that meet at an explicit byte layout `dhcp_layout(repr)`
+    // (RFC 2131 figure 1 + RFC 2132 option encodings, written out by hand below; options in the order emit uses):
+    //   c06_dhcp_emit_<shape>   emit(repr) into garbage == dhcp_layout(repr), length == buffer_len()      (unwind 130, no parse)
+    //   c06_dhcp_parse_<shape>  parse(dhcp_layout(repr)) == repr                                           (small unwind, no emit)
+    // => parse(emit(repr)) == repr, and emit does not depend on the prior buffer content.
+    // One harness pair per option shape (constant presence pattern and lengths; every value, the message type, the broadcast
+    // flag and the prior buffer content symbolic).
+    #[cfg(feature = "proto-dhcpv4")]
+    const DHCP_BUF: usize = 312;
+
+    #[cfg(all(feature = "proto-dhcpv4", feature = "medium-ethernet"))]
+    #[derive(Clone, Copy)]
+    struct DhcpShape { req_ip: bool, client_id: bool, server_id: bool, router: bool, mask: bool, max_size: bool, lease: bool,
+                       /// 0 = None, k + 1 = Some(k elements)
+                       prl: usize, dns: usize,
+                       /// number of additional (unknown) options, 2 data bytes each
+                       nadd: usize }
+
+    #[cfg(all(feature = "proto-dhcpv4", feature = "medium-ethernet"))]
+    fn dhcp_with_repr(s: DhcpShape, f: impl FnOnce(&DhcpRepr<'_>)) {
+        let prl_bytes: [u8; 4] = kani::any();
+        assert!(s.prl <= 5 && s.dns <= 4 && s.nadd <= 1);
+        let mut servers: heapless::Vec<Ipv4Address, 3> = heapless::Vec::new();
+        if s.dns >= 2 { servers.push(ip4()).ok(); }
+        if s.dns >= 3 { servers.push(ip4()).ok(); }
+        if s.dns >= 4 { servers.push(ip4()).ok(); }
+        let add_data: [u8; 2] = kani::any();
+        let add_kind: u8 = kani::any();
+        // tag: proviso (kinds not interpreted by parse; 0 = PAD and 255 = END cannot be carried as options)
+        kani::assume(add_kind != 0 && add_kind != 255 && add_kind != 53 && add_kind != 50 && add_kind != 61 && add_kind != 54 && add_kind != 3
+                     && add_kind != 1 && add_kind != 57 && add_kind != 58 && add_kind != 59 && add_kind != 51 && add_kind != 55 && add_kind != 6);
+        let add = [DhcpOption { kind: add_kind, data: &add_data[..] }];
+        let repr = DhcpRepr {
+            message_type: DhcpMessageType::from(kani::any::<u8>()),
+            transaction_id: kani::any(), secs: kani::any(), client_hardware_address: mac(),
+            client_ip: ip4(), your_ip: ip4(), server_ip: ip4(), relay_agent_ip: ip4(), broadcast: kani::any(),
+            router: if s.router { Some(ip4()) } else { None },
+            subnet_mask: if s.mask { Some(ip4()) } else { None },
+            requested_ip: if s.req_ip { Some(ip4()) } else { None },
+            client_identifier: if s.client_id { Some(mac()) } else { None },
+            server_identifier: if s.server_id { Some(ip4()) } else { None },
+            parameter_request_list: if s.prl > 0 { Some(&prl_bytes[..s.prl - 1]) } else { None },
+            dns_servers: if s.dns > 0 { Some(servers) } else { None },
+            max_size: if s.max_size { Some(kani::any()) } else { None },
+            lease_duration: if s.lease { Some(kani::any()) } else { None },
+            renew_duration: None, rebind_duration: None, // tag: proviso
+            additional_options: &add[..s.nadd],
+        };
+        f(&repr)
+    }
+
+    #[cfg(all(feature = "proto-dhcpv4", feature = "medium-ethernet"))]
+    fn dhcp_shape_len(s: DhcpShape) -> usize {
+        240 + 3 + 1 + (if s.req_ip { 6 } else { 0 }) + (if s.client_id { 9 } else { 0 }) + (if s.server_id { 6 } else { 0 }) + (if s.router { 6 } else { 0 })
+            + (if s.mask { 6 } else { 0 }) + (if s.max_size { 4 } else { 0 }) + (if s.lease { 6 } else { 0 }) + (if s.prl > 0 { 2 + s.prl - 1 } else { 0 })
+            + (if s.dns > 0 { 2 + 4 * (s.dns - 1) } else { 0 }) + 4 * s.nadd
+    }
+
+    #[cfg(all(feature = "proto-dhcpv4", feature = "medium-ethernet"))]
+    fn dhcp_put_ip(out: &mut [u8; DHCP_BUF], k: usize, kind: u8, ip: &Ipv4Address) -> usize {
+        out[k] = kind; out[k + 1] = 4; out[k + 2..k + 6].copy_from_slice(&ip.octets()); k + 6
+    }
+
+    /// the byte layout of a DHCP message (RFC 2131 figure 1, RFC 2132 options); `out` is zero-filled by the caller; returns the length
+    #[cfg(all(feature = "proto-dhcpv4", feature = "medium-ethernet"))]
+    fn dhcp_layout(r: &DhcpRepr<'_>, out: &mut [u8; DHCP_BUF]) -> usize {
+        let mt: u8 = r.message_type.into();
+        out[0] = match mt { 1 | 3 | 4 | 7 | 8 => 1, 2 | 5 | 6 => 2, _ => 0 }; // BOOTREQUEST / BOOTREPLY (0 for an unknown message type)
+        out[1] = 1; out[2] = 6; out[3] = 0;                                  // htype Ethernet, hlen 6, hops 0
+        out[4..8].copy_from_slice(&r.transaction_id.to_be_bytes());
+        out[8..10].copy_from_slice(&r.secs.to_be_bytes());
+        out[10] = if r.broadcast { 0x80 } else { 0 }; out[11] = 0;
+        out[12..16].copy_from_slice(&r.client_ip.octets());
+        out[16..20].copy_from_slice(&r.your_ip.octets());
+        out[20..24].copy_from_slice(&r.server_ip.octets());
+        out[24..28].copy_from_slice(&r.relay_agent_ip.octets());
+        out[28..34].copy_from_slice(&r.client_hardware_address.0);
+        // 34..44 chaddr padding, 44..108 sname, 108..236 file: zero
+        out[236] = 0x63; out[237] = 0x82; out[238] = 0x53; out[239] = 0x63;
+        let mut k = 240;
+        out[k] = 53; out[k + 1] = 1; out[k + 2] = mt; k += 3;
+        if let Some(m) = &r.client_identifier { out[k] = 61; out[k + 1] = 7; out[k + 2] = 1; out[k + 3..k + 9].copy_from_slice(&m.0); k += 9; }
+        if let Some(ip) = &r.server_identifier { k = dhcp_put_ip(out, k, 54, ip); }
+        if let Some(ip) = &r.router { k = dhcp_put_ip(out, k, 3, ip); }
+        if let Some(ip) = &r.subnet_mask { k = dhcp_put_ip(out, k, 1, ip); }
+        if let Some(ip) = &r.requested_ip { k = dhcp_put_ip(out, k, 50, ip); }
+        if let Some(v) = &r.max_size { out[k] = 57; out[k + 1] = 2; out[k + 2..k + 4].copy_from_slice(&v.to_be_bytes()); k += 4; }
+        if let Some(v) = &r.lease_duration { out[k] = 51; out[k + 1] = 4; out[k + 2..k + 6].copy_from_slice(&v.to_be_bytes()); k += 6; }
+        if let Some(l) = r.parameter_request_list { out[k] = 55; out[k + 1] = l.len() as u8; out[k + 2..k + 2 + l.len()].copy_from_slice(l); k += 2 + l.len(); }
+        if let Some(v) = &r.dns_servers {
+            out[k] = 6; out[k + 1] = (4 * v.len()) as u8; k += 2;
+            if v.len() >= 1 { out[k..k + 4].copy_from_slice(&v[0].octets()); k += 4; }
+            if v.len() >= 2 { out[k..k + 4].copy_from_slice(&v[1].octets()); k += 4; }
+            if v.len() >= 3 { out[k..k + 4].copy_from_slice(&v[2].octets()); k += 4; }
+        }
+        if r.additional_options.len() >= 1 {
+            let o = &r.additional_options[0];
+            out[k] = o.kind; out[k + 1] = o.data.len() as u8; out[k + 2..k + 2 + o.data.len()].copy_from_slice(o.data); k += 2 + o.data.len();
+        }
+        out[k] = 255;
+        k + 1
+    }
+
+    #[cfg(all(feature = "proto-dhcpv4", feature = "medium-ethernet"))]
+    fn dhcp_emit_side(s: DhcpShape) {
+        dhcp_with_repr(s, |repr| {
+            let mut a: [u8; DHCP_BUF] = kani::any();
+            let mut b: [u8; DHCP_BUF] = kani::any();
+            let mut c = [0u8; DHCP_BUF];
+            let n = repr.buffer_len();
+            assert!(n == dhcp_shape_len(s) && n <= DHCP_BUF, "C06.dhcp: buffer_len() is the sum of the option lengths");
+            let e1 = repr.emit(&mut DhcpPacket::new_unchecked(&mut a[..n]));
+            let e2 = repr.emit(&mut DhcpPacket::new_unchecked(&mut b[..n]));
+            assert!(e1.is_ok() && e2.is_ok(), "C06.dhcp: emit into buffer_len() bytes succeeds");
+            assert!(DhcpPacket::new_checked(&a[..n]).is_ok(), "C06.dhcp: emitted packet passes new_checked");
+            let m = dhcp_layout(repr, &mut c);
+            assert!(m == n, "C06.dhcp: layout length == buffer_len()");
+            kani::cover!(repr.broadcast && repr.message_type == DhcpMessageType::Request, "broadcast DHCPREQUEST reachable");
+            let i: usize = kani::any();
+            if i < n { assert!(a[i] == c[i], "C06.dhcp: emit(repr) is the RFC 2131 layout of repr"); }
+            same_bytes(&a[..n], &b[..n]);
+        })
+    }
+
+    #[cfg(all(feature = "proto-dhcpv4", feature = "medium-ethernet"))]
+    fn dhcp_ip_eq(a: &Ipv4Address, b: &Ipv4Address) -> bool { u32::from_be_bytes(a.octets()) == u32::from_be_bytes(b.octets()) }
+    #[cfg(all(feature = "proto-dhcpv4", feature = "medium-ethernet"))]
+    fn dhcp_oip_eq(a: &Option<Ipv4Address>, b: &Option<Ipv4Address>) -> bool {
+        match (a, b) { (None, None) => true, (Some(x), Some(y)) => dhcp_ip_eq(x, y), _ => false }
+    }
+    #[cfg(all(feature = "proto-dhcpv4", feature = "medium-ethernet"))]
+    fn dhcp_mac_eq(a: &EthernetAddress, b: &EthernetAddress) -> bool {
+        a.0[0] == b.0[0] && a.0[1] == b.0[1] && a.0[2] == b.0[2] && a.0[3] == b.0[3] && a.0[4] == b.0[4] && a.0[5] == b.0[5]
+    }
+
+    #[cfg(all(feature = "proto-dhcpv4", feature = "medium-ethernet"))]
+    fn dhcp_parse_side(s: DhcpShape) {
+        dhcp_with_repr(s, |repr| {
+            let mut c = [0u8; DHCP_BUF];
+            let n = dhcp_layout(repr, &mut c);
+            assert!(n == dhcp_shape_len(s));
+            let p = DhcpPacket::new_checked(&c[..n]);
+            assert!(p.is_ok());
+            let p = p.unwrap();
+            let r = DhcpRepr::parse(&p);
+            assert!(r.is_ok(), "C06.dhcp: the layout of a repr parses");
+            let r = r.unwrap();
+            kani::cover!(r.broadcast && r.message_type == DhcpMessageType::Request, "broadcast DHCPREQUEST round trip reachable");
+            // comparisons are written without `==` on byte arrays (memcmp loops) to keep the unwind bound at the option count
+            assert!(r.message_type == repr.message_type && r.transaction_id == repr.transaction_id && r.secs == repr.secs
+                    && dhcp_mac_eq(&r.client_hardware_address, &repr.client_hardware_address) && r.broadcast == repr.broadcast, "C06.dhcp: fixed header fields survive");
+            assert!(dhcp_ip_eq(&r.client_ip, &repr.client_ip) && dhcp_ip_eq(&r.your_ip, &repr.your_ip) && dhcp_ip_eq(&r.server_ip, &repr.server_ip)
+                    && dhcp_ip_eq(&r.relay_agent_ip, &repr.relay_agent_ip), "C06.dhcp: addresses in the fixed header survive");
+            assert!(dhcp_oip_eq(&r.router, &repr.router) && dhcp_oip_eq(&r.subnet_mask, &repr.subnet_mask) && dhcp_oip_eq(&r.requested_ip, &repr.requested_ip)
+                    && dhcp_oip_eq(&r.server_identifier, &repr.server_identifier), "C06.dhcp: address options survive");
+            assert!(match (&r.client_identifier, &repr.client_identifier) { (None, None) => true, (Some(x), Some(y)) => dhcp_mac_eq(x, y), _ => false },
+                    "C06.dhcp: client identifier survives");
+            assert!(r.max_size == repr.max_size && r.lease_duration == repr.lease_duration && r.renew_duration == None && r.rebind_duration == None,
+                    "C06.dhcp: scalar options survive");
+            match (&r.dns_servers, &repr.dns_servers) {
+                (None, None) => {}
+                (Some(x), Some(y)) => {
+                    assert!(x.len() == y.len() && y.len() == s.dns - 1, "C06.dhcp: DNS server count survives");
+                    let i: usize = kani::any();
+                    if i < x.len() { assert!(dhcp_ip_eq(&x[i], &y[i]), "C06.dhcp: DNS servers survive"); }
+                }
+                _ => panic!("C06.dhcp: DNS server option presence changed"),
+            }
+            match (r.parameter_request_list, repr.parameter_request_list) {
+                (None, None) => {}
+                (Some(x), Some(y)) => {
+                    assert!(x.len() == y.len(), "C06.dhcp: parameter request list length survives");
+                    let i: usize = kani::any();
+                    if i < x.len() { assert!(x[i] == y[i], "C06.dhcp: parameter request list survives"); }
+                }
+                _ => panic!("C06.dhcp: parameter request list presence changed"),
+            }
+            assert!(r.additional_options.is_empty());
+        })
+    }
+
+    macro_rules! dhcp_shape {
+        ($emit:ident, $parse:ident, $k:expr, $req:expr, $cid:expr, $sid:expr, $rt:expr, $mask:expr, $max:expr, $lease:expr, $prl:expr, $dns:expr, $nadd:expr) => {
+            #[cfg(all(feature = "proto-dhcpv4", feature = "medium-ethernet"))]
+            #[kani::proof] #[kani::unwind(130)]
+            fn $emit() { dhcp_emit_side(DhcpShape { req_ip: $req != 0, client_id: $cid != 0, server_id: $sid != 0, router: $rt != 0, mask: $mask != 0, max_size: $max != 0, lease: $lease != 0, prl: $prl, dns: $dns, nadd: $nadd }); }
+            #[cfg(all(feature = "proto-dhcpv4", feature = "medium-ethernet"))]
+            #[kani::proof] #[kani::unwind($k)]
+            fn $parse() { dhcp_parse_side(DhcpShape { req_ip: $req != 0, client_id: $cid != 0, server_id: $sid != 0, router: $rt != 0, mask: $mask != 0, max_size: $max != 0, lease: $lease != 0, prl: $prl, dns: $dns, nadd: $nadd }); }
+        };
+    }
+    // $k: parse-side unwind = number of options (incl. message type) + 2 (the `for` over options() runs options + 1 times)
+    //                                                                    k  req cid sid rt mask max lease prl dns add
+    dhcp_shape!(c06_dhcp_emit_minimal,  c06_dhcp_parse_minimal,           3,  0,  0,  0,  0, 0,   0,  0,    0,  0,  0);
+    // message type + one option
+    dhcp_shape!(c06_dhcp_emit_one_req,  c06_dhcp_parse_one_req,           4,  1,  0,  0,  0, 0,   0,  0,    0,  0,  0);
+    dhcp_shape!(c06_dhcp_emit_one_cid,  c06_dhcp_parse_one_cid,           4,  0,  1,  0,  0, 0,   0,  0,    0,  0,  0);
+    dhcp_shape!(c06_dhcp_emit_one_sid,  c06_dhcp_parse_one_sid,           4,  0,  0,  1,  0, 0,   0,  0,    0,  0,  0);
+    dhcp_shape!(c06_dhcp_emit_one_rt,   c06_dhcp_parse_one_rt,            4,  0,  0,  0,  1, 0,   0,  0,    0,  0,  0);
+    dhcp_shape!(c06_dhcp_emit_one_mask, c06_dhcp_parse_one_mask,          4,  0,  0,  0,  0, 1,   0,  0,    0,  0,  0);
+    dhcp_shape!(c06_dhcp_emit_one_max,  c06_dhcp_parse_one_max,           4,  0,  0,  0,  0, 0,   1,  0,    0,  0,  0);
+    dhcp_shape!(c06_dhcp_emit_one_lease, c06_dhcp_parse_one_lease,        4,  0,  0,  0,  0, 0,   0,  1,    0,  0,  0);
+    dhcp_shape!(c06_dhcp_emit_one_prl0, c06_dhcp_parse_one_prl0,          4,  0,  0,  0,  0, 0,   0,  0,    1,  0,  0); // Some(empty list)
+    dhcp_shape!(c06_dhcp_emit_one_prl3, c06_dhcp_parse_one_prl3,          4,  0,  0,  0,  0, 0,   0,  0,    4,  0,  0);
+    dhcp_shape!(c06_dhcp_emit_one_dns0, c06_dhcp_parse_one_dns0,          4,  0,  0,  0,  0, 0,   0,  0,    0,  1,  0); // Some(empty list)
+    dhcp_shape!(c06_dhcp_emit_one_dns1, c06_dhcp_parse_one_dns1,          4,  0,  0,  0,  0, 0,   0,  0,    0,  2,  0);
+    dhcp_shape!(c06_dhcp_emit_one_dns3, c06_dhcp_parse_one_dns3,          5,  0,  0,  0,  0, 0,   0,  0,    0,  4,  0); // 3 chunks + 1
+    dhcp_shape!(c06_dhcp_emit_one_add,  c06_dhcp_parse_one_add,           4,  0,  0,  0,  0, 0,   0,  0,    0,  0,  1);
+    // message shapes of the DHCP client / a server
+    dhcp_shape!(c06_dhcp_emit_discover, c06_dhcp_parse_discover,          6,  0,  1,  0,  0, 0,   1,  0,    4,  0,  0); // client id, max size, 3 requested parameters
+    dhcp_shape!(c06_dhcp_emit_request,  c06_dhcp_parse_request,           8,  1,  1,  1,  0, 0,   1,  0,    4,  0,  0);
+    dhcp_shape!(c06_dhcp_emit_ack_dns1, c06_dhcp_parse_ack_dns1,          8,  0,  0,  1,  1, 1,   0,  1,    0,  2,  0);
+    dhcp_shape!(c06_dhcp_emit_all,      c06_dhcp_parse_all,              13,  1,  1,  1,  1, 1,   1,  1,    5,  3,  1);
+
+    /// DEFECT harness: T1 / T2 (renew_duration, rebind_duration; RFC 2132 options 58 / 59) are parsed by Repr::parse but
+    /// Repr::buffer_len reserves no room for them and Repr::emit never writes them
+    #[cfg(all(feature = "proto-dhcpv4", feature = "medium-ethernet"))]
+    #[kani::proof] #[kani::unwind(130)]
+    fn c06_dhcp_emit_t1t2() {
+        let repr = DhcpRepr {
+            message_type: DhcpMessageType::Ack,
+            transaction_id: kani::any(), secs: kani::any(), client_hardware_address: mac(),
+            client_ip: ip4(), your_ip: ip4(), server_ip: ip4(), relay_agent_ip: ip4(), broadcast: kani::any(),
+            router: None, subnet_mask: None, requested_ip: None, client_identifier: None, server_identifier: None,
+            parameter_request_list: None, dns_servers: None, max_size: None, lease_duration: Some(kani::any()),
+            renew_duration: Some(kani::any()), rebind_duration: Some(kani::any()),
+            additional_options: &[],
+        };
+        let mut a: [u8; 262] = kani::any();
+        let n = repr.buffer_len();
+        assert!(n <= 262);
+        assert!(repr.emit(&mut DhcpPacket::new_unchecked(&mut a[..n])).is_ok());
+        // layout: 240 header, 53/1/x, 51/4/lease, then 58/4/T1, 59/4/T2 are expected, END
+        assert!(a[240] == 53 && a[243] == 51);
+        assert!(n == 240 + 3 + 6 + 6 + 6 + 1 && a[249] == 58 && a[255] == 59, "C06.dhcp: renew / rebind durations are emitted");
+    }
+
+    /// the parse half of the same defect: an ACK carrying T1 / T2 parses to a repr with Some(..) durations whose
+    /// buffer_len() equals that of the same repr without them
+    #[cfg(all(feature = "proto-dhcpv4", feature = "medium-ethernet"))]
+    #[kani::proof] #[kani::unwind(5)]
+    fn c06_dhcp_parse_t1t2() {
+        let mut buf: [u8; 256] = kani::any();
+        buf[0] = 2; buf[1] = 1; buf[2] = 6;
+        buf[236] = 0x63; buf[237] = 0x82; buf[238] = 0x53; buf[239] = 0x63;
+        buf[240] = 53; buf[241] = 1; buf[242] = 5;
+        buf[243] = 58; buf[244] = 4; buf[249] = 59; buf[250] = 4; buf[255] = 255;
+        let p = DhcpPacket::new_checked(&buf[..]).unwrap();
+        let r = DhcpRepr::parse(&p);
+        assert!(r.is_ok());
+        let r = r.unwrap();
+        assert!(r.renew_duration == Some(u32::from_be_bytes([buf[245], buf[246], buf[247], buf[248]])) && r.rebind_duration.is_some());
+        assert!(r.buffer_len() == 256, "C06.dhcp: buffer_len() of a parsed ACK with T1 / T2 has room for them");
+    }
+
+    // ------------------------------------------------------------------------------------------ DhcpOption / DhcpOptionWriter
+    // proviso: kind is neither PAD (0) nor END (255); at most 255 data bytes. The option is read back with DhcpPacket::options().
+    #[cfg(feature = "proto-dhcpv4")]
+    #[kani::proof] #[kani::unwind(12)]
+    fn c06_dhcpopt_emit_parse() {
+        const D: usize = 8;
+        let data: [u8; D] = kani::any();
+        let dl: usize = kani::any();
+        kani::assume(dl <= D); // tag: range
+        let opt = DhcpOption { kind: kani::any(), data: &data[..dl] };
+        kani::assume(opt.kind != 0 && opt.kind != 255); // tag: proviso
+        let mut a: [u8; 240 + D + 3] = kani::any();
+        let mut b: [u8; 240 + D + 3] = kani::any();
+        let n = 240 + 2 + dl + 1;
+        {
+            let mut pa = DhcpPacket::new_unchecked(&mut a[..n]);
+            let mut w = pa.options_mut();
+            assert!(w.emit(opt).is_ok() && w.end().is_ok(), "C06.dhcpopt: option and END fit 2 + len + 1 bytes");
+            assert!(w.end().is_err(), "C06.dhcpopt: nothing can be written after END");
+            let mut pb = DhcpPacket::new_unchecked(&mut b[..n]);
+            let mut w = pb.options_mut();
+            assert!(w.emit(opt).is_ok() && w.end().is_ok());
+        }
+        let p = DhcpPacket::new_checked(&a[..n]).unwrap();
+        let mut it = p.options();
+        let got = it.next();
+        kani::cover!(dl == D, "option with the longest data reachable");
+        assert!(got.is_some(), "C06.dhcpopt: emitted option is iterated");
+        let got = got.unwrap();
+        assert!(got.kind == opt.kind && got.data.len() == dl, "C06.dhcpopt: kind and length survive");
+        let i: usize = kani::any();
+        if i < dl { assert!(got.data[i] == data[i], "C06.dhcpopt: data survives"); }
+        assert!(it.next().is_none(), "C06.dhcpopt: END ends the list");
+        same_bytes(&a[240..n], &b[240..n]);
+    }
+
+    /// an option that does not fit, or with more than 255 data bytes, is refused without panicking and without writing
+    #[cfg(feature = "proto-dhcpv4")]
+    #[kani::proof] #[kani::unwind(12)]
+    fn c06_dhcpopt_emit_total() {
+        const D: usize = 8;
+        let data: [u8; D] = kani::any();
+        let dl: usize = kani::any();
+        kani::assume(dl <= D); // tag: range
+        let opt = DhcpOption { kind: kani::any(), data: &data[..dl] };
+        let mut a: [u8; D + 3] = kani::any();
+        let room: usize = kani::any();
+        kani::assume(room <= D + 3); // tag: range
+        let mut w = DhcpOptionWriter::new(&mut a[..room]);
+        let r = w.emit(opt);
+        kani::cover!(r.is_err(), "option that does not fit refused");
+        assert!(r.is_ok() == (room >= 2 + dl), "C06.dhcpopt: emit succeeds iff the option fits");
+        let e = w.end();
+        assert!(e.is_ok() == (if r.is_ok() { room > 2 + dl } else { room > 0 }));
+    }
+
+    // ------------------------------------------------------------------------------------------ DNS
+    // DnsQuestion { name, type_ }: `name` is the encoded name (labels, then 0x00 or a compression pointer).
+    // proviso (dns_name_ok, from RFC 1035 4.1.2 / 4.1.4): a sequence of labels of 1..=63 bytes ended by the root label 0x00 or by a
+    // two-byte pointer (top bits 11), ending exactly at the end of `name`; type_ canonical (DnsQueryType::from(u16)).
+    #[cfg(feature = "proto-dns")]
+    const DNS_NAME: usize = 8;
+
+    #[cfg(feature = "proto-dns")]
+    fn dns_name_ok(name: &[u8]) -> bool {
+        let mut i: usize = 0;
+        loop {
+            if i >= name.len() { return false; }
+            let x = name[i];
+            if x == 0 { return i + 1 == name.len(); }
+            if x & 0xC0 == 0xC0 { return i + 2 == name.len(); }
+            if x & 0xC0 != 0 { return false; }
+            i += 1 + x as usize;
+        }
+    }
+
+    #[cfg(feature = "proto-dns")]
+    #[kani::proof] #[kani::unwind(14)]
+    fn c06_dns_question_emit_parse() {
+        let name: [u8; DNS_NAME] = kani::any();
+        let nl: usize = kani::any();
+        kani::assume(nl <= DNS_NAME); // tag: range
+        let q = DnsQuestion { name: &name[..nl], type_: DnsQueryType::from(kani::any::<u16>()) };
+        kani::assume(dns_name_ok(q.name)); // tag: proviso
+        let mut a: [u8; DNS_NAME + 4] = kani::any();
+        let mut b: [u8; DNS_NAME + 4] = kani::any();
+        let n = q.buffer_len();
+        assert!(n == nl + 4);
+        q.emit(&mut a[..n]);
+        q.emit(&mut b[..n]);
+        let r = DnsQuestion::parse(&a[..n]);
+        assert!(r.is_ok(), "C06.dnsq: emitted question parses");
+        let (rest, got) = r.unwrap();
+        kani::cover!(nl == DNS_NAME && name[nl - 2] == 0xC0, "name ending in a compression pointer reachable");
+        kani::cover!(nl == 1, "root name reachable");
+        assert!(rest.is_empty(), "C06.dnsq: parse consumes exactly buffer_len()");
+        assert!(got.type_ == q.type_ && got.name.len() == nl, "C06.dnsq: parse(emit(q)) == q");
+        let i: usize = kani::any();
+        if i < nl { assert!(got.name[i] == name[i], "C06.dnsq: name survives"); }
+        same_bytes(&a[..n], &b[..n]);
+    }
+
+    #[cfg(feature = "proto-dns")]
+    #[kani::proof] #[kani::unwind(14)]
+    fn c06_dns_question_parse_emit_parse() {
+        const L: usize = DNS_NAME + 6;
+        let buf: [u8; L] = kani::any();
+        let n: usize = kani::any();
+        kani::assume(n <= L); // tag: range
+        if let Ok((rest, q)) = DnsQuestion::parse(&buf[..n]) {
+            kani::cover!(!rest.is_empty() && q.name.len() > 2, "question followed by further bytes parsed");
+            assert!(dns_name_ok(q.name), "C06.dnsq: a parsed name satisfies the proviso");
+            let mut a: [u8; L] = kani::any();
+            let m = q.buffer_len();
+            assert!(m + rest.len() == n);
+            q.emit(&mut a[..m]);
+            let r2 = DnsQuestion::parse(&a[..m]);
+            assert!(r2.is_ok(), "C06.dnsq: re-emitted question parses");
+            let (rest2, q2) = r2.unwrap();
+            assert!(rest2.is_empty() && q2.type_ == q.type_ && q2.name.len() == q.name.len(), "C06.dnsq: parse(emit(parse(bytes))) == parse(bytes)");
+            let i: usize = kani::any();
+            if i < q.name.len() { assert!(q2.name[i] == q.name[i]); }
+        }
+    }
+
+    // DnsRepr (queries only; the crate has no DnsRepr::parse): the round trip is phrased with the DnsPacket accessors and
+    // DnsQuestion::parse on the payload.
+    // proviso: question as above; flags any subset of the defined flag bits; opcode fits the 4-bit OPCODE field.
+    #[cfg(feature = "proto-dns")]
+    fn any_dns_repr(name: &[u8]) -> DnsRepr<'_> {
+        let repr = DnsRepr {
+            transaction_id: kani::any(),
+            opcode: DnsOpcode::from(kani::any::<u8>()),
+            flags: DnsFlags::from_bits_truncate(kani::any::<u16>()),
+            question: DnsQuestion { name, type_: DnsQueryType::from(kani::any::<u16>()) },
+        };
+        kani::assume(dns_name_ok(repr.question.name)); // tag: proviso
+        kani::assume(u8::from(repr.opcode) < 16); // tag: proviso
+        repr
+    }
+
+    /// everything except OPCODE survives (OPCODE: see c06_dns_emit_parse_opcode)
+    #[cfg(feature = "proto-dns")]
+    #[kani::proof] #[kani::unwind(14)]
+    fn c06_dns_emit_parse() {
+        let name: [u8; DNS_NAME] = kani::any();
+        let nl: usize = kani::any();
+        kani::assume(nl <= DNS_NAME); // tag: range
+        let repr = any_dns_repr(&name[..nl]);
+        let mut a: [u8; 12 + DNS_NAME + 4] = kani::any();
+        let n = repr.buffer_len();
+        assert!(n == 12 + nl + 4);
+        repr.emit(&mut DnsPacket::new_unchecked(&mut a[..n]));
+        let p = DnsPacket::new_checked(&a[..n]);
+        assert!(p.is_ok(), "C06.dns: emitted packet passes new_checked");
+        let p = p.unwrap();
+        kani::cover!(repr.flags.contains(DnsFlags::RECURSION_DESIRED) && nl == DNS_NAME, "recursive query round trip reachable");
+        assert!(p.transaction_id() == repr.transaction_id && p.flags() == repr.flags, "C06.dns: transaction id and flags survive");
+        assert!(p.question_count() == 1 && p.answer_record_count() == 0 && p.authority_record_count() == 0 && p.additional_record_count() == 0,
+                "C06.dns: a query carries exactly one question");
+        let r = DnsQuestion::parse(p.payload());
+        assert!(r.is_ok(), "C06.dns: question of the emitted packet parses");
+        let (rest, got) = r.unwrap();
+        assert!(rest.is_empty() && got.type_ == repr.question.type_ && got.name.len() == nl, "C06.dns: question survives");
+        let i: usize = kani::any();
+        if i < nl { assert!(got.name[i] == name[i], "C06.dns: question name survives"); }
+    }
+
+    /// DEFECT harness: set_opcode masks only 3 of the 4 OPCODE bits, so the top bit keeps the prior buffer content
+    #[cfg(feature = "proto-dns")]
+    #[kani::proof] #[kani::unwind(14)]
+    fn c06_dns_emit_parse_opcode() {
+        let name: [u8; 1] = [0];
+        let repr = any_dns_repr(&name[..]);
+        let mut a: [u8; 17] = kani::any();
+        let n = repr.buffer_len();
+        assert!(n == 17);
+        repr.emit(&mut DnsPacket::new_unchecked(&mut a[..n]));
+        let p = DnsPacket::new_checked(&a[..n]).unwrap();
+        assert!(p.opcode() == repr.opcode, "C06.dns: opcode survives");
+    }
+
+    /// DEFECT harness: emit leaves RCODE, the Z bit and the top OPCODE bit (mask 0x404f of the flags word) unwritten
+    #[cfg(feature = "proto-dns")]
+    #[kani::proof] #[kani::unwind(14)]
+    fn c06_dns_emit_deterministic() {
+        let name: [u8; 1] = [0];
+        let repr = any_dns_repr(&name[..]);
+        let mut a: [u8; 17] = kani::any();
+        let mut b: [u8; 17] = kani::any();
+        let n = repr.buffer_len();
+        assert!(n == 17);
+        repr.emit(&mut DnsPacket::new_unchecked(&mut a[..n]));
+        repr.emit(&mut DnsPacket::new_unchecked(&mut b[..n]));
+        same_bytes(&a[..n], &b[..n]);
+    }
+
+    /// what does hold: on a zero-filled buffer (as socket::dns uses) the opcode survives, RCODE reads NoError,
+    /// and outside the mask 0x404f of the flags word the bytes never depend on the prior content
+    #[cfg(feature = "proto-dns")]
+    #[kani::proof] #[kani::unwind(14)]
+    fn c06_dns_emit_zeroed() {
+        let name: [u8; DNS_NAME] = kani::any();
+        let nl: usize = kani::any();
+        kani::assume(nl <= DNS_NAME); // tag: range
+        let repr = any_dns_repr(&name[..nl]);
+        let mut a = [0u8; 12 + DNS_NAME + 4];
+        let mut b: [u8; 12 + DNS_NAME + 4] = kani::any();
+        let n = repr.buffer_len();
+        repr.emit(&mut DnsPacket::new_unchecked(&mut a[..n]));
+        repr.emit(&mut DnsPacket::new_unchecked(&mut b[..n]));
+        let p = DnsPacket::new_checked(&a[..n]).unwrap();
+        kani::cover!(repr.opcode == DnsOpcode::Unknown(15), "largest opcode reachable");
+        assert!(p.opcode() == repr.opcode && p.rcode() == DnsRcode::NoError, "C06.dns: opcode survives on a zeroed buffer");
+        let (mut a2, mut b2) = (a, b);
+        a2[2] &= !0x40; a2[3] &= !0x4f; b2[2] &= !0x40; b2[3] &= !0x4f;
+        same_bytes(&a2[..n], &b2[..n]);
+    }
+
+    // ======================================================================== merged from sub-agent A
+    // ------------------------------------------------------------------------------------------ IPv6 extension header (generic)
+    // Ipv6ExtHeaderRepr::emit writes only the two fixed octets (next header, length); header_len() == 2 is the declared
+    // length. The `data` slice is written by the caller through payload_mut() (as iface does with the hop-by-hop options).
+    // proviso: data.len() == 8 * length + 6 (RFC 8200 4: the header is 8 * (length + 1) octets long).
+    #[cfg(feature = "proto-ipv6")]
+    #[kani::proof] #[kani::unwind(4)]
+    fn c06_ipv6ext_emit_parse() {
+        const D: usize = 22;
+        let data: [u8; D] = kani::any();
+        let length: u8 = kani::any();
+        kani::assume(length <= 2); // tag: range
+        let dl = length as usize * 8 + 6; // tag: proviso
+        let repr = Ipv6ExtHeaderRepr { next_header: IpProtocol::from(kani::any::<u8>()), length, data: &data[..dl] };
+        let mut a: [u8; D + 2] = kani::any();
+        let mut b: [u8; D + 2] = kani::any();
+        let h = repr.header_len();
+        assert!(h == 2);
+        let n = h + dl;
+        { let mut hd = Ipv6ExtHeader::new_unchecked(&mut a[..n]); repr.emit(&mut hd); hd.payload_mut().copy_from_slice(repr.data); }
+        { let mut hd = Ipv6ExtHeader::new_unchecked(&mut b[..n]); repr.emit(&mut hd); hd.payload_mut().copy_from_slice(repr.data); }
+        let p = Ipv6ExtHeader::new_checked(&a[..n]);
+        assert!(p.is_ok(), "C06.ipv6ext: emitted header passes new_checked");
+        let p = p.unwrap();
+        let r = Ipv6ExtHeaderRepr::parse(&p);
+        assert!(r.is_ok(), "C06.ipv6ext: emitted header parses");
+        let r = r.unwrap();
+        kani::cover!(length == 2, "extension header of 24 octets round trip reachable");
+        assert!(r.next_header == repr.next_header && r.length == repr.length && r.data.len() == dl, "C06.ipv6ext: parse(emit(repr)) == repr");
+        let i: usize = kani::any();
+        if i < dl { assert!(r.data[i] == data[i], "C06.ipv6ext: data survives"); }
+        same_bytes(&a[..n], &b[..n]);
+    }
+
+    /// emission into a buffer of exactly header_len() octets, for every length value
+    #[cfg(feature = "proto-ipv6")]
+    #[kani::proof] #[kani::unwind(4)]
+    fn c06_ipv6ext_emit_total() {
+        let repr = Ipv6ExtHeaderRepr { next_header: IpProtocol::from(kani::any::<u8>()), length: kani::any(), data: &[] };
+        let mut a: [u8; 2] = kani::any();
+        let mut b: [u8; 2] = kani::any();
+        let h = repr.header_len();
+        assert!(h == 2);
+        repr.emit(&mut Ipv6ExtHeader::new_unchecked(&mut a[..h]));
+        repr.emit(&mut Ipv6ExtHeader::new_unchecked(&mut b[..h]));
+        let p = Ipv6ExtHeader::new_unchecked(&a[..h]);
+        kani::cover!(repr.length == 255, "maximal length value reachable");
+        assert!(p.next_header() == repr.next_header && p.header_len() == repr.length);
+        same_bytes(&a[..h], &b[..h]);
+    }
+
+    #[cfg(feature = "proto-ipv6")]
+    #[kani::proof] #[kani::unwind(4)]
+    fn c06_ipv6ext_parse_emit_parse() {
+        const L: usize = 26;
+        let buf: [u8; L] = kani::any();
+        let n: usize = kani::any();
+        kani::assume(n <= L); // tag: range
+        if let Ok(p) = Ipv6ExtHeader::new_checked(&buf[..n]) {
+            if let Ok(r) = Ipv6ExtHeaderRepr::parse(&p) {
+                kani::cover!(r.length == 2 && n == L, "24 octet header with trailing bytes parsed");
+                let mut a: [u8; L] = kani::any();
+                let m = r.header_len() + r.data.len();
+                assert!(m <= L && r.data.len() == r.length as usize * 8 + 6);
+                { let mut hd = Ipv6ExtHeader::new_unchecked(&mut a[..m]); r.emit(&mut hd); hd.payload_mut().copy_from_slice(r.data); }
+                let p2 = Ipv6ExtHeader::new_checked(&a[..m]);
+                assert!(p2.is_ok());
+                let p2 = p2.unwrap();
+                let r2 = Ipv6ExtHeaderRepr::parse(&p2);
+                assert!(r2.is_ok(), "C06.ipv6ext: re-emitted header parses");
+                let r2 = r2.unwrap();
+                assert!(r2.next_header == r.next_header && r2.length == r.length && r2.data.len() == r.data.len(), "C06.ipv6ext: parse(emit(parse(bytes))) == parse(bytes)");
+                let i: usize = kani::any();
+                if i < r.data.len() { assert!(r2.data[i] == r.data[i]); }
+            }
+        }
+    }
+
+    // ------------------------------------------------------------------------------------------ IPv6 fragment header
+    // proviso: frag_offset fits its 13-bit field.
+    #[cfg(feature = "proto-ipv6")]
+    #[kani::proof] #[kani::unwind(4)]
+    fn c06_ipv6frag_emit_parse() {
+        let repr = Ipv6FragmentRepr { frag_offset: kani::any(), more_frags: kani::any(), ident: kani::any() };
+        kani::assume(repr.frag_offset <= 0x1fff); // tag: proviso
+        let mut a: [u8; 8] = kani::any();
+        let mut b: [u8; 8] = kani::any();
+        let n = repr.buffer_len();
+        assert!(n == 6);
+        repr.emit(&mut Ipv6FragmentHeader::new_unchecked(&mut a[..n]));
+        repr.emit(&mut Ipv6FragmentHeader::new_unchecked(&mut b[..n]));
+        let p = Ipv6FragmentHeader::new_checked(&a[..n]);
+        assert!(p.is_ok(), "C06.ipv6frag: emitted header passes new_checked");
+        let r = Ipv6FragmentRepr::parse(&p.unwrap());
+        kani::cover!(r.is_ok() && repr.frag_offset == 0x1fff && repr.more_frags, "maximal fragment offset round trip reachable");
+        assert!(r == Ok(repr), "C06.ipv6frag: parse(emit(repr)) == repr");
+        same_bytes(&a[..n], &b[..n]);
+    }
+
+    #[cfg(feature = "proto-ipv6")]
+    #[kani::proof] #[kani::unwind(4)]
+    fn c06_ipv6frag_parse_emit_parse() {
+        const L: usize = 8;
+        let buf: [u8; L] = kani::any();
+        let n: usize = kani::any();
+        kani::assume(n <= L); // tag: range
+        if let Ok(p) = Ipv6FragmentHeader::new_checked(&buf[..n]) {
+            if let Ok(r) = Ipv6FragmentRepr::parse(&p) {
+                kani::cover!((buf[1] & 0x06) != 0, "header with reserved bits set parsed");
+                let mut a: [u8; L] = kani::any();
+                let m = r.buffer_len();
+                assert!(m <= L);
+                r.emit(&mut Ipv6FragmentHeader::new_unchecked(&mut a[..m]));
+                let p2 = Ipv6FragmentHeader::new_checked(&a[..m]);
+                assert!(p2.is_ok());
+                assert!(Ipv6FragmentRepr::parse(&p2.unwrap()) == Ok(r), "C06.ipv6frag: parse(emit(parse(bytes))) == parse(bytes)");
+            }
+        }
+    }
+
+    // ------------------------------------------------------------------------------------------ IPv6 routing header
+    // proviso (Rpl): cmpr_i, cmpr_e, pad fit their 4-bit fields.
+    #[cfg(feature = "proto-ipv6")]
+    #[kani::proof] #[kani::unwind(18)]
+    fn c06_ipv6routing_type2_emit_parse() {
+        let repr = Ipv6RoutingRepr::Type2 { segments_left: kani::any(), home_address: ip6() };
+        let mut a: [u8; 24] = kani::any();
+        let mut b: [u8; 24] = kani::any();
+        let n = repr.buffer_len();
+        assert!(n == 22);
+        repr.emit(&mut Ipv6RoutingHeader::new_unchecked(&mut a[..n]));
+        repr.emit(&mut Ipv6RoutingHeader::new_unchecked(&mut b[..n]));
+        let p = Ipv6RoutingHeader::new_checked(&a[..n]);
+        assert!(p.is_ok(), "C06.ipv6routing: emitted header passes new_checked");
+        let p = p.unwrap();
+        let r = Ipv6RoutingRepr::parse(&p);
+        kani::cover!(r.is_ok(), "Type 2 routing header round trip reachable");
+        assert!(r == Ok(repr), "C06.ipv6routing: parse(emit(repr)) == repr");
+        same_bytes(&a[..n], &b[..n]);
+    }
+
+    #[cfg(feature = "proto-ipv6")]
+    #[kani::proof] #[kani::unwind(4)]
+    fn c06_ipv6routing_rpl_emit_parse() {
+        const D: usize = 18;
+        let addrs: [u8; D] = kani::any();
+        let al: usize = kani::any();
+        kani::assume(al <= D); // tag: range
+        let (segments_left, cmpr_i, cmpr_e, pad): (u8, u8, u8, u8) = (kani::any(), kani::any(), kani::any(), kani::any());
+        kani::assume(cmpr_i <= 15 && cmpr_e <= 15 && pad <= 15); // tag: proviso
+        let repr = Ipv6RoutingRepr::Rpl { segments_left, cmpr_i, cmpr_e, pad, addresses: &addrs[..al] };
+        let mut a: [u8; 6 + D] = kani::any();
+        let mut b: [u8; 6 + D] = kani::any();
+        let n = repr.buffer_len();
+        assert!(n == 6 + al);
+        repr.emit(&mut Ipv6RoutingHeader::new_unchecked(&mut a[..n]));
+        repr.emit(&mut Ipv6RoutingHeader::new_unchecked(&mut b[..n]));
+        let p = Ipv6RoutingHeader::new_checked(&a[..n]);
+        assert!(p.is_ok(), "C06.ipv6routing: emitted header passes new_checked");
+        let p = p.unwrap();
+        let r = Ipv6RoutingRepr::parse(&p);
+        kani::cover!(r.is_ok() && al == D && pad == 15, "RPL source routing header round trip reachable");
+        match r {
+            Ok(Ipv6RoutingRepr::Rpl { segments_left: s, cmpr_i: ci, cmpr_e: ce, pad: pd, addresses: ad }) => {
+                assert!(s == segments_left && ci == cmpr_i && ce == cmpr_e && pd == pad && ad.len() == al, "C06.ipv6routing: parse(emit(repr)) == repr");
+                let i: usize = kani::any();
+                if i < al { assert!(ad[i] == addrs[i], "C06.ipv6routing: addresses survive"); }
+            }
+            _ => panic!("C06.ipv6routing: variant changed"),
+        }
+        same_bytes(&a[..n], &b[..n]);
+    }
+
+    #[cfg(feature = "proto-ipv6")]
+    #[kani::proof] #[kani::unwind(18)]
+    fn c06_ipv6routing_parse_emit_parse() {
+        const L: usize = 24;
+        let buf: [u8; L] = kani::any();
+        let n: usize = kani::any();
+        kani::assume(n <= L); // tag: range
+        if let Ok(p) = Ipv6RoutingHeader::new_checked(&buf[..n]) {
+            if let Ok(r) = Ipv6RoutingRepr::parse(&p) {
+                kani::cover!(matches!(r, Ipv6RoutingRepr::Type2 { .. }), "Type 2 header parsed");
+                kani::cover!(matches!(r, Ipv6RoutingRepr::Rpl { .. }) && n == L, "RPL header with addresses parsed");
+                let mut a: [u8; L] = kani::any();
+                let m = r.buffer_len();
+                assert!(m <= L);
+                r.emit(&mut Ipv6RoutingHeader::new_unchecked(&mut a[..m]));
+                let p2 = Ipv6RoutingHeader::new_checked(&a[..m]);
+                assert!(p2.is_ok());
+                let p2 = p2.unwrap();
+                let r2 = Ipv6RoutingRepr::parse(&p2);
+                match (r, r2) {
+                    (Ipv6RoutingRepr::Type2 { segments_left: s1, home_address: h1 }, Ok(Ipv6RoutingRepr::Type2 { segments_left: s2, home_address: h2 })) =>
+                        assert!(s1 == s2 && h1 == h2, "C06.ipv6routing: parse(emit(parse(bytes))) == parse(bytes)"),
+                    (Ipv6RoutingRepr::Rpl { segments_left: s1, cmpr_i: i1, cmpr_e: e1, pad: p1, addresses: a1 },
+                     Ok(Ipv6RoutingRepr::Rpl { segments_left: s2, cmpr_i: i2, cmpr_e: e2, pad: p2, addresses: a2 })) => {
+                        assert!(s1 == s2 && i1 == i2 && e1 == e2 && p1 == p2 && a1.len() == a2.len(), "C06.ipv6routing: parse(emit(parse(bytes))) == parse(bytes)");
+                        let i: usize = kani::any();
+                        if i < a1.len() { assert!(a1[i] == a2[i]); }
+                    }
+                    _ => panic!("C06.ipv6routing: variant changed"),
+                }
+            }
+        }
+    }
+
+    // ------------------------------------------------------------------------------------------ IPv6 options
+    // proviso: Unknown { type_, length, data }: type_ is in canonical form and is not one of the types with a format of
+    //          their own (Pad1, PadN, RouterAlert; Rpl when proto-rpl is enabled), and data.len() == length.
+    //          RouterAlert(x): x in canonical form (From<u16>).
+    /// field-wise equality of two option representations (slices: length and one symbolic index)
+    #[cfg(feature = "proto-ipv6")]
+    fn ipv6opt_eq(got: &Ipv6OptionRepr, want: &Ipv6OptionRepr) {
+        match (*got, *want) {
+            (Ipv6OptionRepr::Pad1, Ipv6OptionRepr::Pad1) => {}
+            (Ipv6OptionRepr::PadN(x), Ipv6OptionRepr::PadN(y)) => assert!(x == y, "C06.ipv6opt: PadN length survives"),
+            (Ipv6OptionRepr::RouterAlert(x), Ipv6OptionRepr::RouterAlert(y)) => assert!(x == y, "C06.ipv6opt: router alert value survives"),
+            (Ipv6OptionRepr::Unknown { type_: t1, length: l1, data: d1 }, Ipv6OptionRepr::Unknown { type_: t2, length: l2, data: d2 }) => {
+                assert!(t1 == t2 && l1 == l2 && d1.len() == d2.len(), "C06.ipv6opt: unknown option survives");
+                let i: usize = kani::any();
+                if i < d1.len() { assert!(d1[i] == d2[i], "C06.ipv6opt: option data survives"); }
+            }
+            _ => panic!("C06.ipv6opt: variant changed"),
+        }
+    }
+
+    #[cfg(feature = "proto-ipv6")]
+    fn ipv6opt_rt(opt: Ipv6OptionRepr) {
+        const N: usize = 16;
+        let mut a: [u8; N] = kani::any();
+        let mut b: [u8; N] = kani::any();
+        let n = opt.buffer_len();
+        assert!(n <= N);
+        opt.emit(&mut Ipv6Option::new_unchecked(&mut a[..n]));
+        opt.emit(&mut Ipv6Option::new_unchecked(&mut b[..n]));
+        let p = Ipv6Option::new_checked(&a[..n]);
+        assert!(p.is_ok(), "C06.ipv6opt: emitted option passes new_checked");
+        let p = p.unwrap();
+        let r = Ipv6OptionRepr::parse(&p);
+        assert!(r.is_ok(), "C06.ipv6opt: emitted option parses");
+        let r = r.unwrap();
+        assert!(r.buffer_len() == n);
+        ipv6opt_eq(&r, &opt);
+        same_bytes(&a[..n], &b[..n]);
+    }
+
+    #[cfg(feature = "proto-ipv6")]
+    fn ipv6opt_unknown_type_ok(t: Ipv6OptionType) -> bool {
+        #[cfg(feature = "proto-rpl")]
+        { matches!(t, Ipv6OptionType::Unknown(_)) }
+        #[cfg(not(feature = "proto-rpl"))]
+        { matches!(t, Ipv6OptionType::Unknown(_) | Ipv6OptionType::Rpl) }
+    }
+
+    #[cfg(feature = "proto-ipv6")]
+    #[kani::proof] #[kani::unwind(16)]
+    fn c06_ipv6opt_emit_parse_fixed() {
+        let which: u8 = kani::any();
+        let opt = match which {
+            0 => Ipv6OptionRepr::Pad1,
+            1 => { let l: u8 = kani::any(); kani::assume(l <= 14); /* tag: range */ Ipv6OptionRepr::PadN(l) }
+            _ => Ipv6OptionRepr::RouterAlert(Ipv6OptionRouterAlert::from(kani::any::<u16>())),
+        };
+        kani::cover!(which == 1 && opt.buffer_len() == 16, "PadN of 16 octets reachable");
+        kani::cover!(which == 2, "router alert option reachable");
+        ipv6opt_rt(opt);
+    }
+
+    #[cfg(feature = "proto-ipv6")]
+    #[kani::proof] #[kani::unwind(4)]
+    fn c06_ipv6opt_emit_parse_unknown() {
+        let data: [u8; 14] = kani::any();
+        let length: u8 = kani::any();
+        kani::assume(length <= 14); // tag: range
+        let type_ = Ipv6OptionType::from(kani::any::<u8>());
+        kani::assume(ipv6opt_unknown_type_ok(type_)); // tag: proviso
+        kani::cover!(length == 14, "unknown option with 14 data octets reachable");
+        kani::cover!(length == 0, "unknown option without data reachable");
+        ipv6opt_rt(Ipv6OptionRepr::Unknown { type_, length, data: &data[..length as usize] });
+    }
+
+    #[cfg(feature = "proto-ipv6")]
+    #[kani::proof] #[kani::unwind(12)]
+    fn c06_ipv6opt_parse_emit_parse() {
+        const L: usize = 10;
+        let buf: [u8; L] = kani::any();
+        let n: usize = kani::any();
+        kani::assume(n <= L); // tag: range
+        if let Ok(p) = Ipv6Option::new_checked(&buf[..n]) {
+            if let Ok(r) = Ipv6OptionRepr::parse(&p) {
+                kani::cover!(matches!(r, Ipv6OptionRepr::Unknown { .. }), "unknown option parsed");
+                kani::cover!(matches!(r, Ipv6OptionRepr::RouterAlert(_)), "router alert option parsed");
+                kani::cover!(matches!(r, Ipv6OptionRepr::PadN(8)), "PadN filling the buffer parsed");
+                let mut a: [u8; L] = kani::any();
+                let m = r.buffer_len();
+                assert!(m <= n, "C06.ipv6opt: declared length of a parsed option lies within the parsed bytes");
+                r.emit(&mut Ipv6Option::new_unchecked(&mut a[..m]));
+                let p2 = Ipv6Option::new_checked(&a[..m]);
+                assert!(p2.is_ok());
+                let p2 = p2.unwrap();
+                let r2 = Ipv6OptionRepr::parse(&p2);
+                assert!(r2.is_ok(), "C06.ipv6opt: re-emitted option parses");
+                ipv6opt_eq(&r2.unwrap(), &r);
+            }
+        }
+    }
+
+    // ------------------------------------------------------------------------------------------ IPv6 hop-by-hop options
+    // Ipv6HopByHopRepr is the option list that follows the two octets of the generic extension header.
+    // proviso: at least one option (new_checked rejects an empty list; on the wire the list has 8k + 6 octets);
+    //          every option satisfies the option proviso above.
+    // bound: up to IPV6_HBH_MAX_OPTIONS (4) options, each one of Pad1 / PadN(<= 3) / RouterAlert / Unknown (<= 2 data octets).
+    #[cfg(feature = "proto-ipv6")]
+    fn ipv6hbh_any_opt<'a>(data: &'a [u8; 2]) -> Ipv6OptionRepr<'a> {
+        match kani::any::<u8>() {
+            0 => Ipv6OptionRepr::Pad1,
+            1 => { let l: u8 = kani::any(); kani::assume(l <= 3); /* tag: range */ Ipv6OptionRepr::PadN(l) }
+            2 => Ipv6OptionRepr::RouterAlert(Ipv6OptionRouterAlert::from(kani::any::<u16>())),
+            _ => {
+                let length: u8 = kani::any();
+                kani::assume(length <= 2); // tag: range
+                let type_ = Ipv6OptionType::from(kani::any::<u8>());
+                kani::assume(ipv6opt_unknown_type_ok(type_)); // tag: proviso
+                Ipv6OptionRepr::Unknown { type_, length, data: &data[..length as usize] }
+            }
+        }
+    }
+
+    #[cfg(feature = "proto-ipv6")]
+    fn ipv6hbh_rt(k: usize) {
+        const N: usize = 20;
+        let data: [u8; 2] = kani::any();
+        let mut repr = Ipv6HopByHopRepr { options: heapless::Vec::new() };
+        let mut j = 0;
+        while j < k { repr.options.push(ipv6hbh_any_opt(&data)).unwrap(); j += 1; }
+        let mut a: [u8; N] = kani::any();
+        let mut b: [u8; N] = kani::any();
+        let n = repr.buffer_len();
+        assert!(1 <= n && n <= N);
+        repr.emit(&mut Ipv6HopByHopHeader::new_unchecked(&mut a[..n]));
+        repr.emit(&mut Ipv6HopByHopHeader::new_unchecked(&mut b[..n]));
+        let p = Ipv6HopByHopHeader::new_checked(&a[..n]);
+        assert!(p.is_ok(), "C06.ipv6hbh: emitted option list passes new_checked");
+        let p = p.unwrap();
+        let r = Ipv6HopByHopRepr::parse(&p);
+        assert!(r.is_ok(), "C06.ipv6hbh: emitted option list parses");
+        let r = r.unwrap();
+        kani::cover!(matches!(repr.options[k - 1], Ipv6OptionRepr::RouterAlert(_)) && n >= 4 * k, "option list ending in a router alert reachable");
+        assert!(r.options.len() == k, "C06.ipv6hbh: number of options survives");
+        let i: usize = kani::any();
+        if i < k { ipv6opt_eq(&r.options[i], &repr.options[i]); }
+        same_bytes(&a[..n], &b[..n]);
+    }
+
+    #[cfg(feature = "proto-ipv6")]
+    #[kani::proof] #[kani::unwind(6)]
+    fn c06_ipv6hbh_emit_parse_1() { ipv6hbh_rt(1); }
+    #[cfg(feature = "proto-ipv6")]
+    #[kani::proof] #[kani::unwind(6)]
+    fn c06_ipv6hbh_emit_parse_2() { ipv6hbh_rt(2); }
+    #[cfg(feature = "proto-ipv6")]
+    #[kani::proof] #[kani::unwind(6)]
+    fn c06_ipv6hbh_emit_parse_3() { ipv6hbh_rt(3); }
+    #[cfg(feature = "proto-ipv6")]
+    #[kani::proof] #[kani::unwind(6)]
+    fn c06_ipv6hbh_emit_parse_4() { ipv6hbh_rt(4); }
+
+    /// the MLDv2 router alert list that iface emits (RouterAlert(MLD) + PadN(0))
+    #[cfg(feature = "proto-ipv6")]
+    #[kani::proof] #[kani::unwind(6)]
+    fn c06_ipv6hbh_emit_parse_mldv2() {
+        let mut repr = Ipv6HopByHopRepr::mldv2_router_alert();
+        repr.push_padn_option(0);
+        let mut a: [u8; 8] = kani::any();
+        let mut b: [u8; 8] = kani::any();
+        let n = repr.buffer_len();
+        assert!(n == 6);
+        repr.emit(&mut Ipv6HopByHopHeader::new_unchecked(&mut a[..n]));
+        repr.emit(&mut Ipv6HopByHopHeader::new_unchecked(&mut b[..n]));
+        let p = Ipv6HopByHopHeader::new_checked(&a[..n]).unwrap();
+        let r = Ipv6HopByHopRepr::parse(&p);
+        kani::cover!(r.is_ok(), "MLDv2 router alert list round trip reachable");
+        assert!(r == Ok(repr), "C06.ipv6hbh: parse(emit(repr)) == repr");
+        same_bytes(&a[..n], &b[..n]);
+    }
+
+    #[cfg(feature = "proto-ipv6")]
+    #[kani::proof] #[kani::unwind(8)]
+    fn c06_ipv6hbh_parse_emit_parse() {
+        const L: usize = 6;
+        let buf: [u8; L] = kani::any();
+        let n: usize = kani::any();
+        kani::assume(n <= L); // tag: range
+        if let Ok(p) = Ipv6HopByHopHeader::new_checked(&buf[..n]) {
+            if let Ok(r) = Ipv6HopByHopRepr::parse(&p) {
+                kani::cover!(r.options.len() == 4 && r.buffer_len() < n, "option list cut at IPV6_HBH_MAX_OPTIONS parsed");
+                kani::cover!(r.options.len() == 2 && r.buffer_len() == 6, "two options in six octets parsed");
+                let mut a: [u8; L] = kani::any();
+                let m = r.buffer_len();
+                assert!(1 <= m && m <= n);
+                r.emit(&mut Ipv6HopByHopHeader::new_unchecked(&mut a[..m]));
+                let p2 = Ipv6HopByHopHeader::new_checked(&a[..m]);
+                assert!(p2.is_ok());
+                let p2 = p2.unwrap();
+                let r2 = Ipv6HopByHopRepr::parse(&p2);
+                assert!(r2.is_ok(), "C06.ipv6hbh: re-emitted option list parses");
+                let r2 = r2.unwrap();
+                assert!(r2.options.len() == r.options.len(), "C06.ipv6hbh: parse(emit(parse(bytes))) keeps the number of options");
+                let i: usize = kani::any();
+                if i < r.options.len() { ipv6opt_eq(&r2.options[i], &r.options[i]); }
+            }
+        }
+    }
+
+    // ------------------------------------------------------------------------------------------ NDISC options
+    // proviso: link-layer address options carry a 6 octet (Ethernet) or, with medium-ieee802154, an 8 octet (extended
+    //            IEEE 802.15.4) address: the lengths RawHardwareAddress::parse accepts. (Other lengths do not survive:
+    //            parse reads min(MAX_HARDWARE_ADDRESS_LEN, 8 * len - 2) octets.)
+    //          PrefixInformation: flags within the defined bits, lifetimes whole seconds fitting 32 bits.
+    //          RedirectedHeader: header.payload_len == data.len() (emit copies data into the payload of the embedded packet),
+    //            the option fits its length octet.
+    //          Unknown: type_ has no named variant, length >= 1, data.len() == 8 * length - 2.
+    #[cfg(all(feature = "proto-ipv6", any(feature = "medium-ethernet", feature = "medium-ieee802154")))]
+    fn ndiscopt_any_lladdr() -> RawHardwareAddress {
+        let bytes: [u8; 8] = kani::any();
+        #[cfg(feature = "medium-ieee802154")]
+        { if kani::any() { RawHardwareAddress::from_bytes(&bytes[..8]) } else { RawHardwareAddress::from_bytes(&bytes[..6]) } }
+        #[cfg(not(feature = "medium-ieee802154"))]
+        { RawHardwareAddress::from_bytes(&bytes[..6]) }
+    }
+
+    /// a 32-bit count (seconds or milliseconds) for a Duration field. Bounded: Duration stores microseconds, so the round
+    /// trip multiplies and divides 64-bit values by 10^6 / 10^3, which SAT solvers cannot do over the full 32-bit range
+    /// (no result in 10 min for cadical, kissat, minisat, z3, cvc5): values below 4096 and the "infinity" value 2^32 - 1.
+    #[cfg(all(feature = "proto-ipv6", any(feature = "medium-ethernet", feature = "medium-ieee802154")))]
+    fn ndiscopt_any_count() -> u32 {
+        let x: u32 = kani::any();
+        kani::assume(x < 4096 || x == u32::MAX); // tag: range
+        x
+    }
+
+    #[cfg(all(feature = "proto-ipv6", any(feature = "medium-ethernet", feature = "medium-ieee802154")))]
+    fn ndiscopt_any_prefix() -> NdiscPrefixInformation {
+        NdiscPrefixInformation {
+            prefix_len: kani::any(),
+            flags: NdiscPrefixInfoFlags::from_bits_truncate(kani::any()),
+            valid_lifetime: crate::time::Duration::from_secs(ndiscopt_any_count() as u64),
+            preferred_lifetime: crate::time::Duration::from_secs(ndiscopt_any_count() as u64),
+            prefix: ip6(),
+        }
+    }
+
+    /// the big-endian 32-bit field at buf[at..at + 4] holds a value of the range of ndiscopt_any_count()
+    #[cfg(all(feature = "proto-ipv6", any(feature = "medium-ethernet", feature = "medium-ieee802154")))]
+    fn ndiscopt_count_in_range(buf: &[u8], at: usize) -> bool {
+        (buf[at] == 0 && buf[at + 1] == 0 && buf[at + 2] < 16) || (buf[at] == 0xff && buf[at + 1] == 0xff && buf[at + 2] == 0xff && buf[at + 3] == 0xff)
+    }
+
+    /// emit twice into garbage, new_checked, parse; returns nothing: asserts the round trip, compares bytes if `det`
+    #[cfg(all(feature = "proto-ipv6", any(feature = "medium-ethernet", feature = "medium-ieee802154")))]
+    fn ndiscopt_rt(opt: NdiscOptionRepr, det: bool) {
+        const N: usize = 56;
+        let mut a: [u8; N] = kani::any();
+        let mut b: [u8; N] = kani::any();
+        let n = opt.buffer_len();
+        assert!(n <= N && n % 8 == 0 && n >= 8, "C06.ndiscopt: declared length is a positive multiple of 8");
+        opt.emit(&mut NdiscOption::new_unchecked(&mut a[..n]));
+        opt.emit(&mut NdiscOption::new_unchecked(&mut b[..n]));
+        let p = NdiscOption::new_checked(&a[..n]);
+        assert!(p.is_ok(), "C06.ndiscopt: emitted option passes new_checked");
+        let p = p.unwrap();
+        assert!(p.data_len() as usize * 8 == n, "C06.ndiscopt: length octet matches the declared length");
+        let r = NdiscOptionRepr::parse(&p);
+        assert!(r.is_ok(), "C06.ndiscopt: emitted option parses");
+        ndiscopt_eq(&r.unwrap(), &opt);
+        if det { same_bytes(&a[..n], &b[..n]); }
+    }
+
+    #[cfg(all(feature = "proto-ipv6", any(feature = "medium-ethernet", feature = "medium-ieee802154")))]
+    fn ndiscopt_eq(got: &NdiscOptionRepr, want: &NdiscOptionRepr) {
+        match (*got, *want) {
+            (NdiscOptionRepr::SourceLinkLayerAddr(x), NdiscOptionRepr::SourceLinkLayerAddr(y)) => assert!(x == y, "C06.ndiscopt: source link-layer address survives"),
+            (NdiscOptionRepr::TargetLinkLayerAddr(x), NdiscOptionRepr::TargetLinkLayerAddr(y)) => assert!(x == y, "C06.ndiscopt: target link-layer address survives"),
+            (NdiscOptionRepr::PrefixInformation(x), NdiscOptionRepr::PrefixInformation(y)) => assert!(x == y, "C06.ndiscopt: prefix information survives"),
+            (NdiscOptionRepr::Mtu(x), NdiscOptionRepr::Mtu(y)) => assert!(x == y, "C06.ndiscopt: MTU survives"),
+            (NdiscOptionRepr::RedirectedHeader(x), NdiscOptionRepr::RedirectedHeader(y)) => {
+                assert!(x.header == y.header && x.data.len() == y.data.len(), "C06.ndiscopt: redirected header survives");
+                let i: usize = kani::any();
+                if i < x.data.len() { assert!(x.data[i] == y.data[i], "C06.ndiscopt: redirected data survives"); }
+            }
+            (NdiscOptionRepr::Unknown { type_: t1, length: l1, data: d1 }, NdiscOptionRepr::Unknown { type_: t2, length: l2, data: d2 }) => {
+                assert!(t1 == t2 && l1 == l2 && d1.len() == d2.len(), "C06.ndiscopt: unknown option survives");
+                let i: usize = kani::any();
+                if i < d1.len() { assert!(d1[i] == d2[i], "C06.ndiscopt: option data survives"); }
+            }
+            _ => panic!("C06.ndiscopt: variant changed"),
+        }
+    }
+
+    /// Source / Target link-layer address option. Prior-content independence is asserted here for 6 octet addresses
+    /// (option without padding); the padded 8 octet case is c06_ndiscopt_lladdr_emit_deterministic.
+    #[cfg(all(feature = "proto-ipv6", any(feature = "medium-ethernet", feature = "medium-ieee802154")))]
+    #[kani::proof] #[kani::unwind(10)]
+    fn c06_ndiscopt_lladdr_emit_parse() {
+        let addr = ndiscopt_any_lladdr();
+        let src: bool = kani::any();
+        let opt = if src { NdiscOptionRepr::SourceLinkLayerAddr(addr) } else { NdiscOptionRepr::TargetLinkLayerAddr(addr) };
+        kani::cover!(addr.len() == 6 && !src, "target link-layer option with an Ethernet address reachable");
+        #[cfg(feature = "medium-ieee802154")]
+        kani::cover!(addr.len() == 8 && src, "source link-layer option with an extended IEEE 802.15.4 address reachable");
+        ndiscopt_rt(opt, addr.len() == 6);
+    }
+
+    /// FINDING: with an 8 octet address the option is 16 octets long, emit writes octets 0..10 only: the 6 padding octets
+    /// keep the prior buffer content (RFC 4944 8: padding must be zero).
+    #[cfg(all(feature = "proto-ipv6", feature = "medium-ieee802154"))]
+    #[kani::proof] #[kani::unwind(10)]
+    fn c06_ndiscopt_lladdr_emit_deterministic() {
+        let bytes: [u8; 8] = kani::any();
+        let addr = RawHardwareAddress::from_bytes(&bytes[..8]);
+        let opt = if kani::any() { NdiscOptionRepr::SourceLinkLayerAddr(addr) } else { NdiscOptionRepr::TargetLinkLayerAddr(addr) };
+        let mut a: [u8; 16] = kani::any();
+        let mut b: [u8; 16] = kani::any();
+        let n = opt.buffer_len();
+        assert!(n == 16);
+        opt.emit(&mut NdiscOption::new_unchecked(&mut a[..n]));
+        opt.emit(&mut NdiscOption::new_unchecked(&mut b[..n]));
+        same_bytes(&a[..n], &b[..n]);
+    }
+
+    #[cfg(all(feature = "proto-ipv6", any(feature = "medium-ethernet", feature = "medium-ieee802154")))]
+    #[kani::proof] #[kani::unwind(18)]
+    fn c06_ndiscopt_prefix_emit_parse() {
+        let pi = ndiscopt_any_prefix();
+        kani::cover!(pi.flags.bits() == 0xc0 && pi.prefix_len == 64, "prefix information with both flags reachable");
+        ndiscopt_rt(NdiscOptionRepr::PrefixInformation(pi), true);
+    }
+
+    /// round trip of the MTU option (prior-content independence: c06_ndiscopt_mtu_emit_deterministic)
+    #[cfg(all(feature = "proto-ipv6", any(feature = "medium-ethernet", feature = "medium-ieee802154")))]
+    #[kani::proof] #[kani::unwind(4)]
+    fn c06_ndiscopt_mtu_emit_parse() {
+        let mtu: u32 = kani::any();
+        kani::cover!(mtu == 1500, "MTU 1500 reachable");
+        ndiscopt_rt(NdiscOptionRepr::Mtu(mtu), false);
+    }
+
+    /// FINDING: emit of the MTU option writes type, length and MTU but not the two reserved octets 2..4 (RFC 4861 4.6.4:
+    /// "MUST be initialized to zero by the sender"): they keep the prior buffer content.
+    #[cfg(all(feature = "proto-ipv6", any(feature = "medium-ethernet", feature = "medium-ieee802154")))]
+    #[kani::proof] #[kani::unwind(4)]
+    fn c06_ndiscopt_mtu_emit_deterministic() {
+        let opt = NdiscOptionRepr::Mtu(kani::any());
+        let mut a: [u8; 8] = kani::any();
+        let mut b: [u8; 8] = kani::any();
+        let n = opt.buffer_len();
+        assert!(n == 8);
+        opt.emit(&mut NdiscOption::new_unchecked(&mut a[..n]));
+        opt.emit(&mut NdiscOption::new_unchecked(&mut b[..n]));
+        same_bytes(&a[..n], &b[..n]);
+    }
+
+    /// Redirected header option, up to 8 octets of the redirected packet's payload. Prior-content independence is asserted
+    /// here when the option needs no padding (data.len() % 8 == 0); the padded case is c06_ndiscopt_redirected_emit_deterministic.
+    #[cfg(all(feature = "proto-ipv6", any(feature = "medium-ethernet", feature = "medium-ieee802154")))]
+    #[kani::proof] #[kani::unwind(18)]
+    fn c06_ndiscopt_redirected_emit_parse() {
+        let data: [u8; 8] = kani::any();
+        let dl: usize = kani::any();
+        kani::assume(dl <= 8); // tag: range
+        let header = Ipv6Repr { src_addr: ip6(), dst_addr: ip6(), next_header: IpProtocol::from(kani::any::<u8>()), payload_len: dl /* tag: proviso */, hop_limit: kani::any() };
+        kani::cover!(dl == 8, "redirected header with 8 payload octets reachable");
+        kani::cover!(dl == 3, "redirected header needing padding reachable");
+        ndiscopt_rt(NdiscOptionRepr::RedirectedHeader(NdiscRedirectedHeader { header, data: &data[..dl] }), dl % 8 == 0);
+    }
+
+    /// FINDING: when 8 + 40 + data.len() is not a multiple of 8 the option is rounded up but the padding octets after the
+    /// data are not written: they keep the prior buffer content.
+    #[cfg(all(feature = "proto-ipv6", any(feature = "medium-ethernet", feature = "medium-ieee802154")))]
+    #[kani::proof] #[kani::unwind(18)]
+    fn c06_ndiscopt_redirected_emit_deterministic() {
+        let data: [u8; 8] = kani::any();
+        let dl: usize = kani::any();
+        kani::assume(dl <= 8); // tag: range
+        let header = Ipv6Repr { src_addr: ip6(), dst_addr: ip6(), next_header: IpProtocol::from(kani::any::<u8>()), payload_len: dl /* tag: proviso */, hop_limit: kani::any() };
+        let opt = NdiscOptionRepr::RedirectedHeader(NdiscRedirectedHeader { header, data: &data[..dl] });
+        let mut a: [u8; 56] = kani::any();
+        let mut b: [u8; 56] = kani::any();
+        let n = opt.buffer_len();
+        assert!(n <= 56);
+        opt.emit(&mut NdiscOption::new_unchecked(&mut a[..n]));
+        opt.emit(&mut NdiscOption::new_unchecked(&mut b[..n]));
+        same_bytes(&a[..n], &b[..n]);
+    }
+
+    #[cfg(all(feature = "proto-ipv6", any(feature = "medium-ethernet", feature = "medium-ieee802154")))]
+    #[kani::proof] #[kani::unwind(4)]
+    fn c06_ndiscopt_unknown_emit_parse() {
+        let data: [u8; 22] = kani::any();
+        let length: u8 = kani::any();
+        kani::assume(1 <= length && length <= 3); // tag: proviso (>= 1), range (<= 3)
+        let type_: u8 = kani::any();
+        kani::assume(matches!(NdiscOptionType::from(type_), NdiscOptionType::Unknown(_))); // tag: proviso
+        kani::cover!(length == 3 && type_ == 0, "unknown option of 24 octets reachable");
+        ndiscopt_rt(NdiscOptionRepr::Unknown { type_, length, data: &data[..length as usize * 8 - 2] }, true);
+    }
+
+    #[cfg(all(feature = "proto-ipv6", any(feature = "medium-ethernet", feature = "medium-ieee802154")))]
+    fn ndiscopt_pep(buf: &[u8]) {
+        if let Ok(p) = NdiscOption::new_checked(buf) {
+            if let Ok(r) = NdiscOptionRepr::parse(&p) {
+                kani::cover!(true, "option parsed");
+                let mut a: [u8; 56] = kani::any();
+                let m = r.buffer_len();
+                assert!(m <= buf.len() && m <= 56, "C06.ndiscopt: declared length of a parsed option lies within the parsed bytes");
+                r.emit(&mut NdiscOption::new_unchecked(&mut a[..m]));
+                let p2 = NdiscOption::new_checked(&a[..m]);
+                assert!(p2.is_ok(), "C06.ndiscopt: re-emitted option passes new_checked");
+                let p2 = p2.unwrap();
+                let r2 = NdiscOptionRepr::parse(&p2);
+                assert!(r2.is_ok(), "C06.ndiscopt: re-emitted option parses");
+                ndiscopt_eq(&r2.unwrap(), &r);
+            }
+        }
+    }
+
+    /// link-layer address, MTU and unknown options (prefix information / redirected header need >= 32 / 48 octets)
+    #[cfg(all(feature = "proto-ipv6", any(feature = "medium-ethernet", feature = "medium-ieee802154")))]
+    #[kani::proof] #[kani::unwind(10)]
+    fn c06_ndiscopt_parse_emit_parse() {
+        const L: usize = 24;
+        let buf: [u8; L] = kani::any();
+        let n: usize = kani::any();
+        kani::assume(n <= L); // tag: range
+        kani::cover!(n == L && buf[0] == 1 && buf[1] == 3, "source link-layer option of 24 octets offered");
+        ndiscopt_pep(&buf[..n]);
+    }
+
+    #[cfg(all(feature = "proto-ipv6", any(feature = "medium-ethernet", feature = "medium-ieee802154")))]
+    #[kani::proof] #[kani::unwind(18)]
+    fn c06_ndiscopt_parse_emit_parse_prefix() {
+        const L: usize = 40;
+        let buf: [u8; L] = kani::any();
+        let n: usize = kani::any();
+        kani::assume(n <= L); // tag: range
+        kani::assume(buf[0] == 3); // tag: range (prefix information)
+        kani::assume(ndiscopt_count_in_range(&buf, 4) && ndiscopt_count_in_range(&buf, 8)); // tag: range (lifetimes)
+        ndiscopt_pep(&buf[..n]);
+    }
+
+    #[cfg(all(feature = "proto-ipv6", any(feature = "medium-ethernet", feature = "medium-ieee802154")))]
+    #[kani::proof] #[kani::unwind(18)]
+    fn c06_ndiscopt_parse_emit_parse_redirected() {
+        const L: usize = 56;
+        let buf: [u8; L] = kani::any();
+        let n: usize = kani::any();
+        kani::assume(n <= L); // tag: range
+        kani::assume(buf[0] == 4); // tag: range (redirected header)
+        ndiscopt_pep(&buf[..n]);
+    }
+
+    // ------------------------------------------------------------------------------------------ NDISC messages
+    // NdiscRepr::emit writes into an Icmpv6Packet; the checksum octets 2..4 belong to the enclosing Icmpv6Repr::emit
+    // and are left out of the byte comparison.
+    // proviso: link-layer addresses as for the options (6 or 8 octets); flags within the defined bits;
+    //          RouterAdvert: router_lifetime whole seconds fitting 16 bits, reachable_time / retrans_time whole milliseconds
+    //            fitting 32 bits (bounded as in ndiscopt_any_count()), prefix_info as for the option;
+    //          Redirect: redirected_hdr as for the option.
+    // Prior-content independence is asserted for the whole message when it carries no option with unwritten octets
+    // (findings c06_ndiscopt_{lladdr,mtu,redirected}_emit_deterministic), else for the message header only.
+    #[cfg(all(feature = "proto-ipv6", any(feature = "medium-ethernet", feature = "medium-ieee802154")))]
+    fn ndisc_same_bytes(a: &[u8], b: &[u8], upto: usize) {
+        let i: usize = kani::any();
+        if i < upto && i != 2 && i != 3 { assert!(a.len() == b.len() && a[i] == b[i], "C06: emitted bytes do not depend on prior buffer content"); }
+    }
+
+    #[cfg(all(feature = "proto-ipv6", any(feature = "medium-ethernet", feature = "medium-ieee802154")))]
+    fn ndisc_any_lladdr() -> Option<RawHardwareAddress> {
+        if kani::any() { Some(ndiscopt_any_lladdr()) } else { None }
+    }
+
+    #[cfg(all(feature = "proto-ipv6", any(feature = "medium-ethernet", feature = "medium-ieee802154")))]
+    fn ndisc_lladdr_clean(l: &Option<RawHardwareAddress>) -> bool {
+        match l { Some(x) => x.len() == 6, None => true }
+    }
+
+    // Equality is checked field by field, addresses at one symbolic index: `==` on Ipv6Address / RawHardwareAddress is a
+    // memcmp loop of 17 / 9 iterations, and the unwind bound also multiplies the option loop of NdiscRepr::parse.
+    #[cfg(all(feature = "proto-ipv6", any(feature = "medium-ethernet", feature = "medium-ieee802154")))]
+    fn ndisc_ip6_eq(x: &Ipv6Address, y: &Ipv6Address) -> bool {
+        let i: usize = kani::any();
+        kani::assume(i < 16);
+        x.octets()[i] == y.octets()[i]
+    }
+
+    #[cfg(all(feature = "proto-ipv6", any(feature = "medium-ethernet", feature = "medium-ieee802154")))]
+    fn ndisc_lladdr_eq(x: &Option<RawHardwareAddress>, y: &Option<RawHardwareAddress>) -> bool {
+        match (x, y) {
+            (None, None) => true,
+            (Some(x), Some(y)) => {
+                let i: usize = kani::any();
+                x.len() == y.len() && (i >= x.len() || x.as_bytes()[i] == y.as_bytes()[i])
+            }
+            _ => false,
+        }
+    }
+
+    #[cfg(all(feature = "proto-ipv6", any(feature = "medium-ethernet", feature = "medium-ieee802154")))]
+    fn ndisc_prefix_eq(x: &Option<NdiscPrefixInformation>, y: &Option<NdiscPrefixInformation>) -> bool {
+        match (x, y) {
+            (None, None) => true,
+            (Some(x), Some(y)) => x.prefix_len == y.prefix_len && x.flags == y.flags && x.valid_lifetime == y.valid_lifetime
+                && x.preferred_lifetime == y.preferred_lifetime && ndisc_ip6_eq(&x.prefix, &y.prefix),
+            _ => false,
+        }
+    }
+
+    #[cfg(all(feature = "proto-ipv6", any(feature = "medium-ethernet", feature = "medium-ieee802154")))]
+    fn ndisc_redirected_eq(x: &Option<NdiscRedirectedHeader>, y: &Option<NdiscRedirectedHeader>) -> bool {
+        match (x, y) {
+            (None, None) => true,
+            (Some(x), Some(y)) => {
+                let i: usize = kani::any();
+                ndisc_ip6_eq(&x.header.src_addr, &y.header.src_addr) && ndisc_ip6_eq(&x.header.dst_addr, &y.header.dst_addr)
+                    && x.header.next_header == y.header.next_header && x.header.payload_len == y.header.payload_len && x.header.hop_limit == y.header.hop_limit
+                    && x.data.len() == y.data.len() && (i >= x.data.len() || x.data[i] == y.data[i])
+            }
+            _ => false,
+        }
+    }
+
+    #[cfg(all(feature = "proto-ipv6", any(feature = "medium-ethernet", feature = "medium-ieee802154")))]
+    fn ndisc_eq(got: &NdiscRepr, want: &NdiscRepr) -> bool {
+        match (got, want) {
+            (NdiscRepr::RouterSolicit { lladdr: l1 }, NdiscRepr::RouterSolicit { lladdr: l2 }) => ndisc_lladdr_eq(l1, l2),
+            (NdiscRepr::RouterAdvert { hop_limit: h1, flags: f1, router_lifetime: a1, reachable_time: b1, retrans_time: c1, lladdr: l1, mtu: m1, prefix_info: p1 },
+             NdiscRepr::RouterAdvert { hop_limit: h2, flags: f2, router_lifetime: a2, reachable_time: b2, retrans_time: c2, lladdr: l2, mtu: m2, prefix_info: p2 }) =>
+                h1 == h2 && f1 == f2 && a1 == a2 && b1 == b2 && c1 == c2 && ndisc_lladdr_eq(l1, l2) && m1 == m2 && ndisc_prefix_eq(p1, p2),
+            (NdiscRepr::NeighborSolicit { target_addr: t1, lladdr: l1 }, NdiscRepr::NeighborSolicit { target_addr: t2, lladdr: l2 }) =>
+                ndisc_ip6_eq(t1, t2) && ndisc_lladdr_eq(l1, l2),
+            (NdiscRepr::NeighborAdvert { flags: f1, target_addr: t1, lladdr: l1 }, NdiscRepr::NeighborAdvert { flags: f2, target_addr: t2, lladdr: l2 }) =>
+                f1 == f2 && ndisc_ip6_eq(t1, t2) && ndisc_lladdr_eq(l1, l2),
+            (NdiscRepr::Redirect { target_addr: t1, dest_addr: d1, lladdr: l1, redirected_hdr: r1 }, NdiscRepr::Redirect { target_addr: t2, dest_addr: d2, lladdr: l2, redirected_hdr: r2 }) =>
+                ndisc_ip6_eq(t1, t2) && ndisc_ip6_eq(d1, d2) && ndisc_lladdr_eq(l1, l2) && ndisc_redirected_eq(r1, r2),
+            _ => false,
+        }
+    }
+
+    /// emit twice into garbage buffers of the declared length, new_checked, parse, compare
+    #[cfg(all(feature = "proto-ipv6", any(feature = "medium-ethernet", feature = "medium-ieee802154")))]
+    fn ndisc_rt<const N: usize>(repr: NdiscRepr, hdr: usize, clean: bool) {
+        let mut a: [u8; N] = kani::any();
+        let mut b: [u8; N] = kani::any();
+        let n = repr.buffer_len();
+        assert!(hdr <= n && n <= N);
+        repr.emit(&mut Icmpv6Packet::new_unchecked(&mut a[..n]));
+        repr.emit(&mut Icmpv6Packet::new_unchecked(&mut b[..n]));
+        let p = Icmpv6Packet::new_checked(&a[..n]);
+        assert!(p.is_ok(), "C06.ndisc: emitted message passes new_checked");
+        let p = p.unwrap();
+        assert!(p.msg_code() == 0 && p.header_len() == hdr);
+        let r = NdiscRepr::parse(&p);
+        assert!(r.is_ok(), "C06.ndisc: emitted message parses");
+        assert!(ndisc_eq(&r.unwrap(), &repr), "C06.ndisc: parse(emit(repr)) == repr");
+        ndisc_same_bytes(&a[..n], &b[..n], if clean { n } else { hdr });
+    }
+
+    #[cfg(all(feature = "proto-ipv6", any(feature = "medium-ethernet", feature = "medium-ieee802154")))]
+    #[kani::proof] #[kani::unwind(4)]
+    fn c06_ndisc_rs_emit_parse() {
+        let lladdr = ndisc_any_lladdr();
+        kani::cover!(lladdr.is_some(), "router solicitation with a source link-layer address reachable");
+        kani::cover!(lladdr.is_none(), "router solicitation without options reachable");
+        ndisc_rt::<24>(NdiscRepr::RouterSolicit { lladdr }, 8, ndisc_lladdr_clean(&lladdr));
+    }
+
+    #[cfg(all(feature = "proto-ipv6", any(feature = "medium-ethernet", feature = "medium-ieee802154")))]
+    #[kani::proof] #[kani::unwind(4)]
+    fn c06_ndisc_ns_emit_parse() {
+        let lladdr = ndisc_any_lladdr();
+        kani::cover!(lladdr.is_some(), "neighbor solicitation with a source link-layer address reachable");
+        ndisc_rt::<40>(NdiscRepr::NeighborSolicit { target_addr: ip6(), lladdr }, 24, ndisc_lladdr_clean(&lladdr));
+    }
+
+    #[cfg(all(feature = "proto-ipv6", any(feature = "medium-ethernet", feature = "medium-ieee802154")))]
+    #[kani::proof] #[kani::unwind(4)]
+    fn c06_ndisc_na_emit_parse() {
+        let lladdr = ndisc_any_lladdr();
+        let flags = NdiscNeighborFlags::from_bits_truncate(kani::any());
+        kani::cover!(lladdr.is_some() && flags.bits() == 0xe0, "neighbor advertisement with all flags and a target link-layer address reachable");
+        ndisc_rt::<40>(NdiscRepr::NeighborAdvert { flags, target_addr: ip6(), lladdr }, 24, ndisc_lladdr_clean(&lladdr));
+    }
+
+    /// link-layer address of a fixed shape: 0 = none, 6 = Ethernet, 8 = extended IEEE 802.15.4
+    #[cfg(all(feature = "proto-ipv6", any(feature = "medium-ethernet", feature = "medium-ieee802154")))]
+    fn ndisc_lladdr_of(len: usize) -> Option<RawHardwareAddress> {
+        let bytes: [u8; 8] = kani::any();
+        if len == 0 { None } else { Some(RawHardwareAddress::from_bytes(&bytes[..len])) }
+    }
+
+    /// Router advertisement, one harness per option shape: link-layer address (none / 6 / 8 octets) x MTU x prefix information
+    #[cfg(all(feature = "proto-ipv6", any(feature = "medium-ethernet", feature = "medium-ieee802154")))]
+    fn ndisc_ra_rt(ll: usize, with_mtu: bool, with_prefix: bool) {
+        let lladdr = ndisc_lladdr_of(ll);
+        let mtu: Option<u32> = if with_mtu { Some(kani::any()) } else { None };
+        let prefix_info = if with_prefix { Some(ndiscopt_any_prefix()) } else { None };
+        let rl: u16 = kani::any();
+        kani::assume(rl < 4096 || rl == u16::MAX); // tag: range
+        let repr = NdiscRepr::RouterAdvert {
+            hop_limit: kani::any(),
+            flags: NdiscRouterFlags::from_bits_truncate(kani::any()),
+            router_lifetime: crate::time::Duration::from_secs(rl as u64),
+            reachable_time: crate::time::Duration::from_millis(ndiscopt_any_count() as u64),
+            retrans_time: crate::time::Duration::from_millis(ndiscopt_any_count() as u64),
+            lladdr, mtu, prefix_info,
+        };
+        kani::cover!(rl == u16::MAX, "router advertisement with the maximal router lifetime reachable");
+        // buffers of at most 64 octets keep CBMC's array field sensitivity (constant offsets stay constant)
+        if ll == 8 { ndisc_rt::<72>(repr, 16, false); } else { ndisc_rt::<64>(repr, 16, !with_mtu); }
+    }
+
+    macro_rules! ndisc_ra_shape {
+        ($name:ident, $ll:expr, $mtu:expr, $pi:expr) => {
+            #[cfg(all(feature = "proto-ipv6", any(feature = "medium-ethernet", feature = "medium-ieee802154")))]
+            #[kani::proof] #[kani::unwind(5)]
+            fn $name() { ndisc_ra_rt($ll, $mtu != 0, $pi != 0); }
+        };
+    }
+    macro_rules! ndisc_ra_shape8 {
+        ($name:ident, $mtu:expr, $pi:expr) => {
+            #[cfg(all(feature = "proto-ipv6", feature = "medium-ieee802154"))]
+            #[kani::proof] #[kani::unwind(5)]
+            fn $name() { ndisc_ra_rt(8, $mtu != 0, $pi != 0); }
+        };
+    }
+    // name: c06_ndisc_ra_ep_ll<len>_<mtu><prefix>
+    ndisc_ra_shape!(c06_ndisc_ra_ep_ll0_00, 0, 0, 0);
+    ndisc_ra_shape!(c06_ndisc_ra_ep_ll0_01, 0, 0, 1);
+    ndisc_ra_shape!(c06_ndisc_ra_ep_ll0_10, 0, 1, 0);
+    ndisc_ra_shape!(c06_ndisc_ra_ep_ll0_11, 0, 1, 1);
+    ndisc_ra_shape!(c06_ndisc_ra_ep_ll6_00, 6, 0, 0);
+    ndisc_ra_shape!(c06_ndisc_ra_ep_ll6_01, 6, 0, 1);
+    ndisc_ra_shape!(c06_ndisc_ra_ep_ll6_10, 6, 1, 0);
+    ndisc_ra_shape!(c06_ndisc_ra_ep_ll6_11, 6, 1, 1);
+    ndisc_ra_shape8!(c06_ndisc_ra_ep_ll8_00, 0, 0);
+    ndisc_ra_shape8!(c06_ndisc_ra_ep_ll8_01, 0, 1);
+    ndisc_ra_shape8!(c06_ndisc_ra_ep_ll8_10, 1, 0);
+    ndisc_ra_shape8!(c06_ndisc_ra_ep_ll8_11, 1, 1);
+
+    /// Redirect, one harness per shape: link-layer address (none / 6 / 8 octets) x redirected header (absent / present
+    /// with up to 8 payload octets)
+    #[cfg(all(feature = "proto-ipv6", any(feature = "medium-ethernet", feature = "medium-ieee802154")))]
+    fn ndisc_redirect_rt(ll: usize, rh: bool) {
+        let data: [u8; 8] = kani::any();
+        let dl: usize = kani::any();
+        kani::assume(dl <= 8); // tag: range
+        let lladdr = ndisc_lladdr_of(ll);
+        let redirected_hdr = if rh {
+            let header = Ipv6Repr { src_addr: ip6(), dst_addr: ip6(), next_header: IpProtocol::from(kani::any::<u8>()), payload_len: dl /* tag: proviso */, hop_limit: kani::any() };
+            Some(NdiscRedirectedHeader { header, data: &data[..dl] })
+        } else { None };
+        let repr = NdiscRepr::Redirect { target_addr: ip6(), dest_addr: ip6(), lladdr, redirected_hdr };
+        kani::cover!(dl == 8, "redirected header with 8 payload octets reachable");
+        // buffers of at most 64 octets keep CBMC's array field sensitivity
+        if rh { ndisc_rt::<112>(repr, 40, ndisc_lladdr_clean(&lladdr) && dl % 8 == 0); } else { ndisc_rt::<64>(repr, 40, ndisc_lladdr_clean(&lladdr)); }
+    }
+
+    #[cfg(all(feature = "proto-ipv6", any(feature = "medium-ethernet", feature = "medium-ieee802154")))]
+    #[kani::proof] #[kani::unwind(8)]
+    fn c06_ndisc_redirect_emit_parse_norh_ll0() { ndisc_redirect_rt(0, false); }
+    #[cfg(all(feature = "proto-ipv6", any(feature = "medium-ethernet", feature = "medium-ieee802154")))]
+    #[kani::proof] #[kani::unwind(8)]
+    fn c06_ndisc_redirect_emit_parse_norh_ll6() { ndisc_redirect_rt(6, false); }
+    #[cfg(all(feature = "proto-ipv6", any(feature = "medium-ethernet", feature = "medium-ieee802154")))]
+    #[kani::proof] #[kani::unwind(8)]
+    fn c06_ndisc_redirect_emit_parse_rh_ll0() { ndisc_redirect_rt(0, true); }
+    #[cfg(all(feature = "proto-ipv6", any(feature = "medium-ethernet", feature = "medium-ieee802154")))]
+    #[kani::proof] #[kani::unwind(8)]
+    fn c06_ndisc_redirect_emit_parse_rh_ll6() { ndisc_redirect_rt(6, true); }
+    #[cfg(all(feature = "proto-ipv6", feature = "medium-ieee802154"))]
+    #[kani::proof] #[kani::unwind(8)]
+    fn c06_ndisc_redirect_emit_parse_rh_ll8() { ndisc_redirect_rt(8, true); }
+
+    // ------------------------------------------------------------------------------------------ MLD
+    // MldRepr::emit writes into an Icmpv6Packet; the checksum octets 2..4 belong to the enclosing Icmpv6Repr::emit and
+    // are left out of the byte comparison.
+    // proviso: Query: qrv fits its 3-bit field (set_qrv asserts value < 8).
+    //          MldAddressRecordRepr: mcast_addr is a multicast address (set_mcast_addr asserts it), record_type canonical;
+    //            emit writes the 20 octet record header only (buffer_len() excludes `payload`): the caller copies the
+    //            payload (source addresses, auxiliary data) through payload_mut(), like UdpRepr's payload writer.
+    //          ReportRecordReprs: at most 65535 records.
+    #[cfg(feature = "proto-ipv6")]
+    fn mld_same_bytes(a: &[u8], b: &[u8]) {
+        let i: usize = kani::any();
+        if i < a.len() && i != 2 && i != 3 { assert!(a.len() == b.len() && a[i] == b[i], "C06: emitted bytes do not depend on prior buffer content"); }
+    }
+
+    #[cfg(feature = "proto-ipv6")]
+    fn mld_ip6_eq(x: &Ipv6Address, y: &Ipv6Address) -> bool {
+        let i: usize = kani::any();
+        kani::assume(i < 16);
+        x.octets()[i] == y.octets()[i]
+    }
+
+    #[cfg(feature = "proto-ipv6")]
+    #[kani::proof] #[kani::unwind(4)]
+    fn c06_mld_query_emit_parse() {
+        const D: usize = 16;
+        let data: [u8; D] = kani::any();
+        let dl: usize = kani::any();
+        kani::assume(dl <= D); // tag: range
+        let (max_resp_code, mcast_addr, s_flag, qrv, qqic, num_srcs): (u16, Ipv6Address, bool, u8, u8, u16) = (kani::any(), ip6(), kani::any(), kani::any(), kani::any(), kani::any());
+        kani::assume(qrv < 8); // tag: proviso
+        let repr = MldRepr::Query { max_resp_code, mcast_addr, s_flag, qrv, qqic, num_srcs, data: &data[..dl] };
+        let mut a: [u8; 28 + D] = kani::any();
+        let mut b: [u8; 28 + D] = kani::any();
+        let n = repr.buffer_len();
+        assert!(n == 28 + dl);
+        repr.emit(&mut Icmpv6Packet::new_unchecked(&mut a[..n]));
+        repr.emit(&mut Icmpv6Packet::new_unchecked(&mut b[..n]));
+        let p = Icmpv6Packet::new_checked(&a[..n]);
+        assert!(p.is_ok(), "C06.mld: emitted query passes new_checked");
+        let p = p.unwrap();
+        let r = MldRepr::parse(&p);
+        kani::cover!(r.is_ok() && dl == D && s_flag && qrv == 7, "query with one source address round trip reachable");
+        match r {
+            Ok(MldRepr::Query { max_resp_code: m, mcast_addr: ma, s_flag: s, qrv: q, qqic: qq, num_srcs: ns, data: d }) => {
+                assert!(m == max_resp_code && mld_ip6_eq(&ma, &mcast_addr) && s == s_flag && q == qrv && qq == qqic && ns == num_srcs && d.len() == dl, "C06.mld: parse(emit(repr)) == repr");
+                let i: usize = kani::any();
+                if i < dl { assert!(d[i] == data[i], "C06.mld: query data survives"); }
+            }
+            _ => panic!("C06.mld: emitted query does not parse as a query"),
+        }
+        mld_same_bytes(&a[..n], &b[..n]);
+    }
+
+    #[cfg(feature = "proto-ipv6")]
+    #[kani::proof] #[kani::unwind(4)]
+    fn c06_mld_report_emit_parse() {
+        const D: usize = 24;
+        let data: [u8; D] = kani::any();
+        let dl: usize = kani::any();
+        kani::assume(dl <= D); // tag: range
+        let nr: u16 = kani::any();
+        let repr = MldRepr::Report { nr_mcast_addr_rcrds: nr, data: &data[..dl] };
+        let mut a: [u8; 8 + D] = kani::any();
+        let mut b: [u8; 8 + D] = kani::any();
+        let n = repr.buffer_len();
+        assert!(n == 8 + dl);
+        repr.emit(&mut Icmpv6Packet::new_unchecked(&mut a[..n]));
+        repr.emit(&mut Icmpv6Packet::new_unchecked(&mut b[..n]));
+        let p = Icmpv6Packet::new_checked(&a[..n]);
+        assert!(p.is_ok(), "C06.mld: emitted report passes new_checked");
+        let p = p.unwrap();
+        let r = MldRepr::parse(&p);
+        kani::cover!(r.is_ok() && dl == 20 && nr == 1, "report with one record round trip reachable");
+        match r {
+            Ok(MldRepr::Report { nr_mcast_addr_rcrds: k, data: d }) => {
+                assert!(k == nr && d.len() == dl, "C06.mld: parse(emit(repr)) == repr");
+                let i: usize = kani::any();
+                if i < dl { assert!(d[i] == data[i], "C06.mld: report data survives"); }
+            }
+            _ => panic!("C06.mld: emitted report does not parse as a report"),
+        }
+        mld_same_bytes(&a[..n], &b[..n]);
+    }
+
+    #[cfg(feature = "proto-ipv6")]
+    fn mld_any_record() -> MldAddressRecordRepr<'static> {
+        let r = MldAddressRecordRepr { record_type: MldRecordType::from(kani::any::<u8>()), aux_data_len: kani::any(), num_srcs: kani::any(), mcast_addr: ip6(), payload: &[] };
+        kani::assume(r.mcast_addr.is_multicast()); // tag: proviso
+        r
+    }
+
+    /// MldRepr::ReportRecordReprs(records) is an emit-only form: parse returns it as Report { nr, data }. The records
+    /// are written after the 8 octet header, so the buffer handed to emit is buffer_len() + sum of the records'
+    /// buffer_len() (what iface::mldv2_report_packet computes). Round trip: the parsed Report carries the record count and
+    /// each record parses back to the record emitted.
+    #[cfg(feature = "proto-ipv6")]
+    fn mld_records_rt(k: usize) {
+        const N: usize = 8 + 2 * 20;
+        let recs: [MldAddressRecordRepr; 2] = [mld_any_record(), mld_any_record()];
+        let repr = MldRepr::ReportRecordReprs(&recs[..k]);
+        let mut a: [u8; N] = kani::any();
+        let mut b: [u8; N] = kani::any();
+        let n = repr.buffer_len() + 20 * k;
+        assert!(repr.buffer_len() == 8 && recs[0].buffer_len() == 20);
+        repr.emit(&mut Icmpv6Packet::new_unchecked(&mut a[..n]));
+        repr.emit(&mut Icmpv6Packet::new_unchecked(&mut b[..n]));
+        let p = Icmpv6Packet::new_checked(&a[..n]);
+        assert!(p.is_ok(), "C06.mld: emitted report passes new_checked");
+        let p = p.unwrap();
+        let r = MldRepr::parse(&p);
+        kani::cover!(r.is_ok(), "report built from records round trip reachable");
+        match r {
+            Ok(MldRepr::Report { nr_mcast_addr_rcrds: nr, data: d }) => {
+                assert!(nr as usize == k && d.len() == 20 * k, "C06.mld: record count and record bytes survive");
+                let j: usize = kani::any();
+                if j < k {
+                    let rec = MldAddressRecord::new_checked(&d[20 * j..20 * (j + 1)]);
+                    assert!(rec.is_ok(), "C06.mld: emitted record passes new_checked");
+                    let rr = MldAddressRecordRepr::parse(&rec.unwrap());
+                    assert!(rr.is_ok());
+                    let rr = rr.unwrap();
+                    assert!(rr.record_type == recs[j].record_type && rr.aux_data_len == recs[j].aux_data_len && rr.num_srcs == recs[j].num_srcs
+                            && mld_ip6_eq(&rr.mcast_addr, &recs[j].mcast_addr) && rr.payload.is_empty(), "C06.mld: parse(emit(record)) == record");
+                }
+            }
+            _ => panic!("C06.mld: emitted report does not parse as a report"),
+        }
+        mld_same_bytes(&a[..n], &b[..n]);
+    }
+
+    #[cfg(feature = "proto-ipv6")]
+    #[kani::proof] #[kani::unwind(4)]
+    fn c06_mld_records_emit_parse_0() { mld_records_rt(0); }
+    #[cfg(feature = "proto-ipv6")]
+    #[kani::proof] #[kani::unwind(4)]
+    fn c06_mld_records_emit_parse_1() { mld_records_rt(1); }
+    #[cfg(feature = "proto-ipv6")]
+    #[kani::proof] #[kani::unwind(4)]
+    fn c06_mld_records_emit_parse_2() { mld_records_rt(2); }
+
+    /// FINDING: MldRepr::ReportRecordReprs(records).buffer_len() is 8 whatever the number of records, but emit writes
+    /// 8 + 20 * records.len() octets: emission into a buffer of the declared length panics (index out of bounds) as soon as
+    /// there is one record.
+    #[cfg(feature = "proto-ipv6")]
+    #[kani::proof] #[kani::unwind(4)]
+    fn c06_mld_records_emit_declared_len() {
+        let recs: [MldAddressRecordRepr; 1] = [mld_any_record()];
+        let repr = MldRepr::ReportRecordReprs(&recs[..]);
+        let mut a: [u8; 32] = kani::any();
+        let n = repr.buffer_len();
+        assert!(n <= 32);
+        repr.emit(&mut Icmpv6Packet::new_unchecked(&mut a[..n]));
+    }
+
+    /// address record with a payload of up to 16 octets (one source address), payload written by the caller
+    #[cfg(feature = "proto-ipv6")]
+    #[kani::proof] #[kani::unwind(4)]
+    fn c06_mld_record_emit_parse() {
+        const D: usize = 16;
+        let pay: [u8; D] = kani::any();
+        let pl: usize = kani::any();
+        kani::assume(pl <= D); // tag: range
+        let repr = MldAddressRecordRepr { record_type: MldRecordType::from(kani::any::<u8>()), aux_data_len: kani::any(), num_srcs: kani::any(), mcast_addr: ip6(), payload: &pay[..pl] };
+        kani::assume(repr.mcast_addr.is_multicast()); // tag: proviso
+        let mut a: [u8; 20 + D] = kani::any();
+        let mut b: [u8; 20 + D] = kani::any();
+        let h = repr.buffer_len();
+        assert!(h == 20);
+        let n = h + pl;
+        { let mut rec = MldAddressRecord::new_unchecked(&mut a[..n]); repr.emit(&mut rec); rec.payload_mut().copy_from_slice(repr.payload); }
+        { let mut rec = MldAddressRecord::new_unchecked(&mut b[..n]); repr.emit(&mut rec); rec.payload_mut().copy_from_slice(repr.payload); }
+        let p = MldAddressRecord::new_checked(&a[..n]);
+        assert!(p.is_ok(), "C06.mld: emitted record passes new_checked");
+        let p = p.unwrap();
+        let r = MldAddressRecordRepr::parse(&p);
+        assert!(r.is_ok(), "C06.mld: emitted record parses");
+        let r = r.unwrap();
+        kani::cover!(pl == D && repr.num_srcs == 1, "record with one source address round trip reachable");
+        assert!(r.record_type == repr.record_type && r.aux_data_len == repr.aux_data_len && r.num_srcs == repr.num_srcs && mld_ip6_eq(&r.mcast_addr, &repr.mcast_addr) && r.payload.len() == pl,
+                "C06.mld: parse(emit(record)) == record");
+        let i: usize = kani::any();
+        if i < pl { assert!(r.payload[i] == pay[i], "C06.mld: record payload survives"); }
+        same_bytes(&a[..n], &b[..n]);
+    }
+
+    #[cfg(feature = "proto-ipv6")]
+    #[kani::proof] #[kani::unwind(4)]
+    fn c06_mld_record_parse_emit_parse() {
+        const L: usize = 28;
+        let buf: [u8; L] = kani::any();
+        let n: usize = kani::any();
+        kani::assume(n <= L); // tag: range
+        if let Ok(p) = MldAddressRecord::new_checked(&buf[..n]) {
+            if let Ok(r) = MldAddressRecordRepr::parse(&p) {
+                if !r.mcast_addr.is_multicast() { return; } // proviso (parse does not check, emit asserts)
+                kani::cover!(n == L, "record with payload parsed");
+                let mut a: [u8; L] = kani::any();
+                let m = r.buffer_len() + r.payload.len();
+                assert!(m == n);
+                { let mut rec = MldAddressRecord::new_unchecked(&mut a[..m]); r.emit(&mut rec); rec.payload_mut().copy_from_slice(r.payload); }
+                let p2 = MldAddressRecord::new_checked(&a[..m]);
+                assert!(p2.is_ok());
+                let p2 = p2.unwrap();
+                let r2 = MldAddressRecordRepr::parse(&p2).unwrap();
+                assert!(r2.record_type == r.record_type && r2.aux_data_len == r.aux_data_len && r2.num_srcs == r.num_srcs && mld_ip6_eq(&r2.mcast_addr, &r.mcast_addr) && r2.payload.len() == r.payload.len(),
+                        "C06.mld: parse(emit(parse(bytes))) == parse(bytes)");
+                let i: usize = kani::any();
+                if i < r.payload.len() { assert!(r2.payload[i] == r.payload[i]); }
+            }
+        }
+    }
+
+    #[cfg(feature = "proto-ipv6")]
+    #[kani::proof] #[kani::unwind(4)]
+    fn c06_mld_parse_emit_parse() {
+        const L: usize = 36;
+        let buf: [u8; L] = kani::any();
+        let n: usize = kani::any();
+        kani::assume(n <= L); // tag: range
+        kani::assume(buf[0] == 0x82 || buf[0] == 0x8f); // tag: range (MLD message types; the other ICMPv6 types are not MLD)
+        if let Ok(p) = Icmpv6Packet::new_checked(&buf[..n]) {
+            if let Ok(r) = MldRepr::parse(&p) {
+                kani::cover!(matches!(r, MldRepr::Query { .. }) && n == L, "query with trailing source bytes parsed");
+                kani::cover!(matches!(r, MldRepr::Report { .. }) && n == 28, "report with one record parsed");
+                let mut a: [u8; L] = kani::any();
+                let m = r.buffer_len();
+                assert!(m == n, "C06.mld: declared length of a parsed message is the length parsed");
+                r.emit(&mut Icmpv6Packet::new_unchecked(&mut a[..m]));
+                let p2 = Icmpv6Packet::new_checked(&a[..m]);
+                assert!(p2.is_ok());
+                let p2 = p2.unwrap();
+                let r2 = MldRepr::parse(&p2);
+                match (r, r2) {
+                    (MldRepr::Query { max_resp_code: m1, mcast_addr: a1, s_flag: s1, qrv: q1, qqic: c1, num_srcs: n1, data: d1 },
+                     Ok(MldRepr::Query { max_resp_code: m2, mcast_addr: a2, s_flag: s2, qrv: q2, qqic: c2, num_srcs: n2, data: d2 })) => {
+                        assert!(m1 == m2 && mld_ip6_eq(&a1, &a2) && s1 == s2 && q1 == q2 && c1 == c2 && n1 == n2 && d1.len() == d2.len(), "C06.mld: parse(emit(parse(bytes))) == parse(bytes)");
+                        let i: usize = kani::any();
+                        if i < d1.len() { assert!(d1[i] == d2[i]); }
+                    }
+                    (MldRepr::Report { nr_mcast_addr_rcrds: k1, data: d1 }, Ok(MldRepr::Report { nr_mcast_addr_rcrds: k2, data: d2 })) => {
+                        assert!(k1 == k2 && d1.len() == d2.len(), "C06.mld: parse(emit(parse(bytes))) == parse(bytes)");
+                        let i: usize = kani::any();
+                        if i < d1.len() { assert!(d1[i] == d2[i]); }
+                    }
+                    _ => panic!("C06.mld: variant changed"),
+                }
+            }
+        }
+    }
 
     // ==== END kani_c06 ====
 }
